@@ -1,6 +1,1597 @@
-(** placeholder, replaced below *)
-From Coq Require Import List Arith Bool.
+(** Specification and proofs for the polytomy-resolution model [Model/Binarize.v].
+
+    Part 0: list lemmas.
+    Part 1: binary trees over atoms: [graft] / [arrange] enumerate, without
+            repetition and completely, the binary trees over a list of atoms,
+            up to the order of children; there are (2k-3)!! of them.
+    Part 2: rose trees: [binarize] enumerates the binary refinements. *)
+From Coq Require Import List Arith Bool Lia Permutation.
 From SR Require Import Model.Binarize.
 Import ListNotations.
-Lemma binarize_leaf n : binarize (RLeaf n) = [BLeaf n].
+
+(* ------------------------------------------------------------------ *)
+(** * Part 0: lists *)
+
+Notation FOP := ForallOrdPairs.
+
+Lemma fop_app {A} (R : A -> A -> Prop) l1 l2 :
+  FOP R l1 -> FOP R l2 -> (forall a b, In a l1 -> In b l2 -> R a b) -> FOP R (l1 ++ l2).
+Proof.
+  induction 1 as [|a l1 Ha H1 IH]; intros H2 HX; simpl; auto.
+  constructor.
+  - apply Forall_app. split; [exact Ha|].
+    apply Forall_forall. intros b Hb. apply HX; [left; reflexivity|exact Hb].
+  - apply IH; auto. intros x y Hx Hy. apply HX; [right; exact Hx|exact Hy].
+Qed.
+
+Lemma fop_map {A B} (R : A -> A -> Prop) (R' : B -> B -> Prop) (f : A -> B) l :
+  FOP R l -> (forall a b, In a l -> In b l -> R a b -> R' (f a) (f b)) -> FOP R' (map f l).
+Proof.
+  induction 1 as [|a l Ha H IH]; intros HX; simpl; constructor.
+  - apply Forall_forall. intros y Hy. apply in_map_iff in Hy as [b [<- Hb]].
+    apply HX; [left; reflexivity|right; exact Hb|].
+    rewrite Forall_forall in Ha. apply Ha, Hb.
+  - apply IH. intros x y Hx Hy. apply HX; right; assumption.
+Qed.
+
+Lemma fop_flat_map {A B} (R : A -> A -> Prop) (R' : B -> B -> Prop) (f : A -> list B) l :
+  FOP R l ->
+  (forall a, In a l -> FOP R' (f a)) ->
+  (forall a b x y, In a l -> In b l -> R a b -> In x (f a) -> In y (f b) -> R' x y) ->
+  FOP R' (flat_map f l).
+Proof.
+  induction 1 as [|a l Ha H IH]; intros HB HX; simpl; [constructor|].
+  apply fop_app.
+  - apply HB. left; reflexivity.
+  - apply IH.
+    + intros b Hb. apply HB. right; exact Hb.
+    + intros x y u v Hx Hy. apply HX; right; assumption.
+  - intros x y Hx Hy. apply in_flat_map in Hy as [b [Hb Hy]].
+    apply (HX a b); auto; [left; reflexivity|right; exact Hb|].
+    rewrite Forall_forall in Ha. apply Ha, Hb.
+Qed.
+
+Lemma flat_map_length_const {A B} (f : A -> list B) l c :
+  (forall a, In a l -> length (f a) = c) -> length (flat_map f l) = length l * c.
+Proof.
+  induction l as [|a l IH]; intros H; simpl; auto.
+  rewrite app_length, H, IH; [reflexivity| |left; reflexivity].
+  intros b Hb. apply H. right; exact Hb.
+Qed.
+
+(** membership in a cartesian product *)
+Lemma in_product {A} (ls : list (list A)) (xs : list A) :
+  In xs (product ls) <-> Forall2 (fun x l => In x l) xs ls.
+Proof.
+  revert xs. induction ls as [|l ls IH]; intros xs; simpl.
+  - split.
+    + intros [<-|[]]. constructor.
+    + intros H. inversion H. left; reflexivity.
+  - rewrite in_flat_map. split.
+    + intros [x [Hx H]]. apply in_map_iff in H as [ys [<- Hys]].
+      constructor; [exact Hx|]. apply IH, Hys.
+    + intros H. inversion H as [|x l' ys ls' Hx Hys]; subst.
+      exists x. split; [exact Hx|]. apply in_map_iff. exists ys. split; [reflexivity|].
+      apply IH, Hys.
+Qed.
+
+Lemma product_length {A} (ls : list (list A)) :
+  length (product ls) = fold_right (fun l acc => length l * acc) 1 ls.
+Proof.
+  induction ls as [|l ls IH]; simpl; auto.
+  rewrite (flat_map_length_const _ l (length (product ls))).
+  - rewrite IH. reflexivity.
+  - intros a _. apply map_length.
+Qed.
+
+Lemma Forall2_length' {A B} (R : A -> B -> Prop) l1 l2 : Forall2 R l1 l2 -> length l1 = length l2.
+Proof. induction 1; simpl; auto. Qed.
+
+(** the tuples of a product of duplicate-free lists are pairwise different,
+    component-wise, for any notion [R] of "same" *)
+Lemma product_fop {A} (R : A -> A -> Prop) (ls : list (list A)) :
+  Forall (FOP (fun a b => ~ R a b)) ls ->
+  FOP (fun xs ys => ~ Forall2 R xs ys) (product ls).
+Proof.
+  induction 1 as [|l ls Hl _ IH]; simpl.
+  - constructor; constructor.
+  - apply (fop_flat_map (fun a b => ~ R a b)); auto.
+    + intros a _. apply (fop_map (fun xs ys => ~ Forall2 R xs ys)); auto.
+      intros xs ys _ _ Hn H. apply Hn. inversion H; assumption.
+    + intros a b x y _ _ Hab Hx Hy H.
+      apply in_map_iff in Hx as [xs [<- _]]. apply in_map_iff in Hy as [ys [<- _]].
+      apply Hab. inversion H; assumption.
+Qed.
+
+(** a permutation can be transported along a pointwise relation *)
+Lemma perm_forall2 {A B} (R : A -> B -> Prop) l ds :
+  Permutation l ds -> forall ds', Forall2 R ds ds' ->
+  exists l', Permutation l' ds' /\ Forall2 R l l'.
+Proof.
+  induction 1 as [|x l ds _ IH|x y l|l m ds _ IH1 _ IH2]; intros ds' F.
+  - inversion F; subst. exists []. split; constructor.
+  - inversion F as [|? x' ? ds1 Hx F1]; subst.
+    destruct (IH _ F1) as [l' [P F']]. exists (x' :: l'). split; constructor; auto.
+  - inversion F as [|? x' ? ds1 Hx F1]; subst.
+    inversion F1 as [|? y' ? ds2 Hy F2]; subst.
+    exists (y' :: x' :: ds2). split; [apply perm_swap|]. repeat constructor; auto.
+  - destruct (IH2 _ F) as [m' [P2 F2]]. destruct (IH1 _ F2) as [l' [P1 F1]].
+    exists l'. split; [|exact F1]. eapply Permutation_trans; eauto.
+Qed.
+
+(* ------------------------------------------------------------------ *)
+(** * Part 1: binary trees over atoms *)
+
+Section Atoms.
+Context {A : Type}.
+
+Fixpoint aleaves (t : atree A) : list A :=
+  match t with
+  | Atom a => [a]
+  | Join l r => aleaves l ++ aleaves r
+  end.
+
+(** equality up to swapping children, atoms compared by [R] *)
+Inductive eqvR (R : A -> A -> Prop) : atree A -> atree A -> Prop :=
+| eR_atom a b : R a b -> eqvR R (Atom a) (Atom b)
+| eR_same l r l' r' : eqvR R l l' -> eqvR R r r' -> eqvR R (Join l r) (Join l' r')
+| eR_swap l r l' r' : eqvR R l r' -> eqvR R r l' -> eqvR R (Join l r) (Join l' r').
+
+Lemma aleaves_nonempty (t : atree A) : aleaves t <> [].
+Proof.
+  induction t as [a|l IHl r _]; simpl; [discriminate|].
+  destruct (aleaves l); [contradiction|discriminate].
+Qed.
+
+Lemma aleaves_pos (t : atree A) : 1 <= length (aleaves t).
+Proof. pose proof (aleaves_nonempty t). destruct (aleaves t); [contradiction|simpl; lia]. Qed.
+
+Lemma aleaves_inhab (t : atree A) : exists y, In y (aleaves t).
+Proof. pose proof (aleaves_nonempty t). destruct (aleaves t) as [|y ?]; [contradiction|exists y; left; auto]. Qed.
+
+Lemma eqvR_len R t1 t2 : eqvR R t1 t2 -> length (aleaves t1) = length (aleaves t2).
+Proof. induction 1; simpl; rewrite ?app_length; lia. Qed.
+
+Lemma eqvR_in R t1 t2 : eqvR R t1 t2 ->
+  forall a, In a (aleaves t1) -> exists b, In b (aleaves t2) /\ R a b.
+Proof.
+  induction 1 as [a b H|l r l' r' _ IH1 _ IH2|l r l' r' _ IH1 _ IH2]; intros x Hx; simpl in *.
+  - destruct Hx as [<-|[]]. exists b. auto.
+  - apply in_app_iff in Hx as [Hx|Hx]; [destruct (IH1 _ Hx) as [b [Hb Hr]]|destruct (IH2 _ Hx) as [b [Hb Hr]]];
+      exists b; rewrite in_app_iff; auto.
+  - apply in_app_iff in Hx as [Hx|Hx]; [destruct (IH1 _ Hx) as [b [Hb Hr]]|destruct (IH2 _ Hx) as [b [Hb Hr]]];
+      exists b; rewrite in_app_iff; auto.
+Qed.
+
+Lemma eqvR_in_r R t1 t2 : eqvR R t1 t2 ->
+  forall b, In b (aleaves t2) -> exists a, In a (aleaves t1) /\ R a b.
+Proof.
+  induction 1 as [a b H|l r l' r' _ IH1 _ IH2|l r l' r' _ IH1 _ IH2]; intros x Hx; simpl in *.
+  - destruct Hx as [<-|[]]. exists a. auto.
+  - apply in_app_iff in Hx as [Hx|Hx]; [destruct (IH1 _ Hx) as [b [Hb Hr]]|destruct (IH2 _ Hx) as [b [Hb Hr]]];
+      exists b; rewrite in_app_iff; auto.
+  - apply in_app_iff in Hx as [Hx|Hx]; [destruct (IH2 _ Hx) as [b [Hb Hr]]|destruct (IH1 _ Hx) as [b [Hb Hr]]];
+      exists b; rewrite in_app_iff; auto.
+Qed.
+
+(** the relation on atoms only matters on the atoms present *)
+Lemma eqvR_mono (R R' : A -> A -> Prop) t1 t2 :
+  eqvR R t1 t2 ->
+  (forall a b, In a (aleaves t1) -> In b (aleaves t2) -> R a b -> R' a b) ->
+  eqvR R' t1 t2.
+Proof.
+  induction 1 as [a b H|l r l' r' _ IH1 _ IH2|l r l' r' _ IH1 _ IH2]; intros HX; simpl in *.
+  - constructor. apply HX; auto.
+  - apply eR_same; [apply IH1|apply IH2]; intros a b Ha Hb; apply HX; rewrite in_app_iff; auto.
+  - apply eR_swap; [apply IH1|apply IH2]; intros a b Ha Hb; apply HX; rewrite in_app_iff; auto.
+Qed.
+
+Lemma eqvR_refl (R : A -> A -> Prop) : (forall a, R a a) -> forall t, eqvR R t t.
+Proof. intros HR. induction t; [apply eR_atom, HR|apply eR_same; assumption]. Qed.
+
+Lemma eqvR_sym (R : A -> A -> Prop) : (forall a b, R a b -> R b a) ->
+  forall t1 t2, eqvR R t1 t2 -> eqvR R t2 t1.
+Proof. intros HR t1 t2. induction 1; [apply eR_atom, HR; assumption|apply eR_same; assumption|apply eR_swap; assumption]. Qed.
+
+Lemma eqvR_trans (R1 R2 R3 : A -> A -> Prop) :
+  (forall a b c, R1 a b -> R2 b c -> R3 a c) ->
+  forall t1 t2, eqvR R1 t1 t2 -> forall t3, eqvR R2 t2 t3 -> eqvR R3 t1 t3.
+Proof.
+  intros HR t1 t2. induction 1 as [a b H|l r l' r' _ IH1 _ IH2|l r l' r' _ IH1 _ IH2]; intros t3 E.
+  - inversion E; subst. apply eR_atom. eapply HR; eauto.
+  - inversion E as [| ? ? l3 r3 E1 E2 | ? ? l3 r3 E1 E2]; subst.
+    + apply eR_same; [apply IH1|apply IH2]; assumption.
+    + apply eR_swap; [apply IH1|apply IH2]; assumption.
+  - inversion E as [| ? ? l3 r3 E1 E2 | ? ? l3 r3 E1 E2]; subst.
+    + apply eR_swap; [apply IH1|apply IH2]; assumption.
+    + apply eR_same; [apply IH1|apply IH2]; assumption.
+Qed.
+
+Notation eqv := (eqvR eq).
+
+Lemma eqv_refl t : eqv t t.
+Proof. apply eqvR_refl. reflexivity. Qed.
+Lemma eqv_sym t1 t2 : eqv t1 t2 -> eqv t2 t1.
+Proof. apply eqvR_sym. intros; subst; reflexivity. Qed.
+Lemma eqv_trans t1 t2 t3 : eqv t1 t2 -> eqv t2 t3 -> eqv t1 t3.
+Proof. intros H1 H2. eapply (eqvR_trans eq eq eq); eauto. intros; subst; reflexivity. Qed.
+
+Lemma eqv_leaves t t' : eqv t t' -> Permutation (aleaves t) (aleaves t').
+Proof.
+  induction 1 as [a b H|l r l' r' _ IH1 _ IH2|l r l' r' _ IH1 _ IH2]; simpl.
+  - subst. apply Permutation_refl.
+  - apply Permutation_app; assumption.
+  - rewrite (Permutation_app_comm (aleaves l') (aleaves r')). apply Permutation_app; assumption.
+Qed.
+
+Lemma eqv_in t1 t2 y : eqv t1 t2 -> In y (aleaves t1) -> In y (aleaves t2).
+Proof. intros E Hy. apply (Permutation_in y (eqv_leaves _ _ E) Hy). Qed.
+
+(** ** graft *)
+
+Lemma graft_length (t : atree A) x : length (graft t x) = 2 * length (aleaves t) - 1.
+Proof.
+  induction t as [a|l IHl r IHr]; simpl; auto.
+  rewrite app_length, !map_length, IHl, IHr, app_length.
+  pose proof (aleaves_pos l). pose proof (aleaves_pos r). lia.
+Qed.
+
+Lemma graft_leaves (t : atree A) x g : In g (graft t x) -> Permutation (aleaves g) (x :: aleaves t).
+Proof.
+  revert g; induction t as [a|l IHl r IHr]; intros g; simpl.
+  - intros [<-|[]]. simpl. apply Permutation_refl.
+  - intros [<-|H]; [simpl; apply Permutation_refl|].
+    apply in_app_iff in H as [H|H]; apply in_map_iff in H as [g' [<- Hg]]; simpl.
+    + rewrite (IHl _ Hg). simpl. apply Permutation_refl.
+    + rewrite (IHr _ Hg). rewrite <- Permutation_middle. apply Permutation_refl.
+Qed.
+
+Lemma graft_has_x (t : atree A) x g : In g (graft t x) -> In x (aleaves g).
+Proof.
+  intros H. apply (Permutation_in x (Permutation_sym (graft_leaves _ _ _ H))). left; reflexivity.
+Qed.
+
+Lemma graft_big (t : atree A) x g : In g (graft t x) -> 2 <= length (aleaves g).
+Proof.
+  intros H. rewrite (Permutation_length (graft_leaves _ _ _ H)). simpl.
+  pose proof (aleaves_pos t). lia.
+Qed.
+
+(** grafts of the same new atom into two trees: if the results are the same up
+    to child order, so were the trees *)
+Lemma graft_eqv_base x (t1 : atree A) : forall t2 g1 g2,
+  ~ In x (aleaves t1) -> ~ In x (aleaves t2) ->
+  In g1 (graft t1 x) -> In g2 (graft t2 x) -> eqv g1 g2 -> eqv t1 t2.
+Proof.
+  assert (forall t g, In g (graft t x) -> ~ eqv (Atom x) g) as NA.
+  { intros t g Hg E. pose proof (eqvR_len _ _ _ E) as HL. pose proof (graft_big _ _ _ Hg). simpl in HL. lia. }
+  assert (forall t g, In g (graft t x) -> ~ eqv g (Atom x)) as NA'.
+  { intros t g Hg E. apply (NA t g Hg). apply eqv_sym, E. }
+  assert (forall t, ~ In x (aleaves t) -> ~ eqv (Atom x) t) as NX.
+  { intros t Hn E. apply Hn. apply (eqv_in _ _ x E). left; reflexivity. }
+  assert (forall t g u, In g (graft t x) -> ~ In x (aleaves u) -> ~ eqv g u) as NG.
+  { intros t g u Hg Hn E. apply Hn. apply (eqv_in _ _ x E). eapply graft_has_x; eauto. }
+  induction t1 as [a|l1 IHl r1 IHr]; intros t2 g1 g2 N1 N2 H1 H2 E.
+  - (* t1 atom: g1 = Join x t1 *)
+    simpl in H1. destruct H1 as [<-|[]].
+    destruct t2 as [b|l2 r2]; simpl in H2.
+    + destruct H2 as [<-|[]]. inversion E as [| ? ? ? ? E1 E2 | ? ? ? ? E1 E2]; subst; auto.
+      exfalso. apply (NX _ N2 E1).
+    + simpl in N2. rewrite in_app_iff in N2.
+      destruct H2 as [<-|H2].
+      * inversion E as [| ? ? ? ? E1 E2 | ? ? ? ? E1 E2]; subst; auto.
+        exfalso. apply (NX (Join l2 r2)); [simpl; rewrite in_app_iff; tauto|exact E1].
+      * exfalso. apply in_app_iff in H2 as [H2|H2]; apply in_map_iff in H2 as [g [<- Hg]];
+          inversion E as [| ? ? ? ? E1 E2 | ? ? ? ? E1 E2]; subst.
+        -- eapply NA; eauto.
+        -- apply (NX r2); [tauto|exact E1].
+        -- apply (NX l2); [tauto|exact E1].
+        -- eapply NA; eauto.
+  - simpl in N1. rewrite in_app_iff in N1.
+    assert (~ In x (aleaves l1)) as N1l by tauto. assert (~ In x (aleaves r1)) as N1r by tauto.
+    simpl in H1. destruct H1 as [<-|H1].
+    + (* g1 = Join x (Join l1 r1) *)
+      destruct t2 as [b|l2 r2]; simpl in H2.
+      * destruct H2 as [<-|[]]. inversion E as [| ? ? ? ? E1 E2 | ? ? ? ? E1 E2]; subst; auto.
+        exfalso. apply (NX _ N2 E1).
+      * simpl in N2. rewrite in_app_iff in N2.
+        destruct H2 as [<-|H2].
+        -- inversion E as [| ? ? ? ? E1 E2 | ? ? ? ? E1 E2]; subst; auto.
+           exfalso. apply (NX (Join l2 r2)); [simpl; rewrite in_app_iff; tauto|exact E1].
+        -- exfalso. apply in_app_iff in H2 as [H2|H2]; apply in_map_iff in H2 as [g [<- Hg]];
+             inversion E as [| ? ? ? ? E1 E2 | ? ? ? ? E1 E2]; subst.
+           ++ eapply NA; eauto.
+           ++ apply (NX r2); [tauto|exact E1].
+           ++ apply (NX l2); [tauto|exact E1].
+           ++ eapply NA; eauto.
+    + apply in_app_iff in H1 as [H1|H1]; apply in_map_iff in H1 as [ga [<- Hga]].
+      * (* g1 = Join ga r1, ga a graft into l1 *)
+        destruct t2 as [b|l2 r2]; simpl in H2.
+        -- destruct H2 as [<-|[]]. exfalso.
+           inversion E as [| ? ? ? ? E1 E2 | ? ? ? ? E1 E2]; subst.
+           ++ eapply NA'; eauto.
+           ++ apply (NX r1 N1r). apply eqv_sym, E2.
+        -- simpl in N2. rewrite in_app_iff in N2.
+           destruct H2 as [<-|H2].
+           ++ exfalso. inversion E as [| ? ? ? ? E1 E2 | ? ? ? ? E1 E2]; subst.
+              ** eapply NA'; eauto.
+              ** apply (NX r1 N1r). apply eqv_sym, E2.
+           ++ apply in_app_iff in H2 as [H2|H2]; apply in_map_iff in H2 as [gb [<- Hgb]];
+                inversion E as [| ? ? ? ? E1 E2 | ? ? ? ? E1 E2]; subst.
+              ** apply eR_same; [|exact E2]. eapply IHl; eauto; tauto.
+              ** exfalso. apply (NG l1 ga r2 Hga); [tauto|exact E1].
+              ** exfalso. apply (NG l1 ga l2 Hga); [tauto|exact E1].
+              ** apply eR_swap; [|exact E2]. eapply IHl; eauto; tauto.
+      * (* g1 = Join l1 ga, ga a graft into r1 *)
+        destruct t2 as [b|l2 r2]; simpl in H2.
+        -- destruct H2 as [<-|[]]. exfalso.
+           inversion E as [| ? ? ? ? E1 E2 | ? ? ? ? E1 E2]; subst.
+           ++ apply (NX l1 N1l). apply eqv_sym, E1.
+           ++ eapply NA'; eauto.
+        -- simpl in N2. rewrite in_app_iff in N2.
+           destruct H2 as [<-|H2].
+           ++ exfalso. inversion E as [| ? ? ? ? E1 E2 | ? ? ? ? E1 E2]; subst.
+              ** apply (NX l1 N1l). apply eqv_sym, E1.
+              ** eapply NA'; eauto.
+           ++ apply in_app_iff in H2 as [H2|H2]; apply in_map_iff in H2 as [gb [<- Hgb]];
+                inversion E as [| ? ? ? ? E1 E2 | ? ? ? ? E1 E2]; subst.
+              ** exfalso. apply (NG r1 ga r2 Hga); [tauto|exact E2].
+              ** apply eR_swap; [exact E1|]. eapply IHr; eauto; tauto.
+              ** apply eR_same; [exact E1|]. eapply IHr; eauto; tauto.
+              ** exfalso. apply (NG r1 ga l2 Hga); [tauto|exact E2].
+Qed.
+
+(** distinct atoms, structurally: the two sides of every node share no atom *)
+Fixpoint dis (t : atree A) : Prop :=
+  match t with
+  | Atom _ => True
+  | Join l r => (forall y, In y (aleaves l) -> In y (aleaves r) -> False) /\ dis l /\ dis r
+  end.
+
+Lemma nodup_dis (t : atree A) : NoDup (aleaves t) -> dis t.
+Proof.
+  induction t as [a|l IHl r IHr]; simpl; auto. intros H.
+  split; [|split].
+  - intros y Hl Hr. revert H Hl Hr. generalize (aleaves l) (aleaves r). intros l1 l2 H.
+    induction l1 as [|z l1 IH]; simpl; [tauto|]. inversion H as [|? ? Hn Hd]; subst.
+    intros [->|Hl] Hr; [apply Hn; apply in_app_iff; auto|apply IH; auto].
+  - apply IHl. revert H. generalize (aleaves l) (aleaves r). intros l1 l2 H.
+    induction l1 as [|z l1 IH]; simpl in *; [constructor|]. inversion H as [|? ? Hn Hd]; subst.
+    constructor; [rewrite in_app_iff in Hn; tauto|auto].
+  - apply IHr. revert H. generalize (aleaves l) (aleaves r). intros l1 l2 H.
+    induction l1 as [|z l1 IH]; simpl in *; auto. inversion H; auto.
+Qed.
+
+(** the grafts of a new atom into one tree are pairwise different up to child order *)
+Lemma graft_fop (t : atree A) x : dis t -> ~ In x (aleaves t) ->
+  FOP (fun g1 g2 => ~ eqv g1 g2) (graft t x).
+Proof.
+  induction t as [a|l IHl r IHr]; intros D Nx; simpl.
+  - constructor; constructor.
+  - destruct D as [DISJ [Dl Dr]]. simpl in Nx. rewrite in_app_iff in Nx.
+    assert (~ In x (aleaves l)) as NxL by tauto. assert (~ In x (aleaves r)) as NxR by tauto.
+    constructor.
+    + (* the graft beside the whole tree differs from all others *)
+      apply Forall_forall. intros g Hg E.
+      apply in_app_iff in Hg as [Hg|Hg]; apply in_map_iff in Hg as [g' [<- Hg']];
+        inversion E as [| ? ? ? ? E1 E2 | ? ? ? ? E1 E2]; subst.
+      * pose proof (eqvR_len _ _ _ E1) as HL. pose proof (graft_big _ _ _ Hg'). simpl in HL. lia.
+      * apply NxR. apply (eqv_in _ _ x E1). left; reflexivity.
+      * apply NxL. apply (eqv_in _ _ x E1). left; reflexivity.
+      * pose proof (eqvR_len _ _ _ E1) as HL. pose proof (graft_big _ _ _ Hg'). simpl in HL. lia.
+    + apply fop_app.
+      * apply (fop_map (fun g1 g2 => ~ eqv g1 g2)); [apply IHl; auto|].
+        intros g1 g2 H1 H2 Hn E. inversion E as [| ? ? ? ? E1 E2 | ? ? ? ? E1 E2]; subst; [auto|].
+        apply NxR. apply (eqv_in _ _ x E1). eapply graft_has_x; eauto.
+      * apply (fop_map (fun g1 g2 => ~ eqv g1 g2)); [apply IHr; auto|].
+        intros g1 g2 H1 H2 Hn E. inversion E as [| ? ? ? ? E1 E2 | ? ? ? ? E1 E2]; subst; [auto|].
+        apply NxL. apply (eqv_in _ _ x (eqv_sym _ _ E1)). eapply graft_has_x; eauto.
+      * intros g1 g2 H1 H2 E.
+        apply in_map_iff in H1 as [ga [<- Hga]]. apply in_map_iff in H2 as [gb [<- Hgb]].
+        inversion E as [| ? ? ? ? E1 E2 | ? ? ? ? E1 E2]; subst.
+        -- apply NxL. apply (eqv_in _ _ x E1). eapply graft_has_x; eauto.
+        -- destruct (aleaves_inhab r) as [y Hy].
+           apply (DISJ y); [|exact Hy]. apply (eqv_in _ _ y E2). exact Hy.
+Qed.
+
+(** grafting commutes with equivalence: a graft into [t1] has an equivalent graft into any [t2] equivalent to [t1] *)
+Lemma graft_eqv_compat x (t1 t2 : atree A) : eqv t1 t2 ->
+  forall g1, In g1 (graft t1 x) -> exists g2, In g2 (graft t2 x) /\ eqv g1 g2.
+Proof.
+  induction 1 as [a b H|l r l' r' E1 IH1 E2 IH2|l r l' r' E1 IH1 E2 IH2]; intros g1 Hg; simpl in Hg.
+  - subst b. destruct Hg as [<-|[]]. exists (Join (Atom x) (Atom a)). split; [left; reflexivity|apply eqv_refl].
+  - destruct Hg as [<-|Hg].
+    + exists (Join (Atom x) (Join l' r')). split; [left; reflexivity|].
+      apply eR_same; [apply eqv_refl|apply eR_same; assumption].
+    + apply in_app_iff in Hg as [Hg|Hg]; apply in_map_iff in Hg as [g [<- Hg]].
+      * destruct (IH1 _ Hg) as [g' [Hg' E']]. exists (Join g' r'). split.
+        -- simpl. right. apply in_app_iff. left. apply in_map_iff. eexists; split; [reflexivity|exact Hg'].
+        -- apply eR_same; assumption.
+      * destruct (IH2 _ Hg) as [g' [Hg' E']]. exists (Join l' g'). split.
+        -- simpl. right. apply in_app_iff. right. apply in_map_iff. eexists; split; [reflexivity|exact Hg'].
+        -- apply eR_same; assumption.
+  - destruct Hg as [<-|Hg].
+    + exists (Join (Atom x) (Join l' r')). split; [left; reflexivity|].
+      apply eR_same; [apply eqv_refl|apply eR_swap; assumption].
+    + apply in_app_iff in Hg as [Hg|Hg]; apply in_map_iff in Hg as [g [<- Hg]].
+      * destruct (IH1 _ Hg) as [g' [Hg' E']]. exists (Join l' g'). split.
+        -- simpl. right. apply in_app_iff. right. apply in_map_iff. eexists; split; [reflexivity|exact Hg'].
+        -- apply eR_swap; assumption.
+      * destruct (IH2 _ Hg) as [g' [Hg' E']]. exists (Join g' r'). split.
+        -- simpl. right. apply in_app_iff. left. apply in_map_iff. eexists; split; [reflexivity|exact Hg'].
+        -- apply eR_swap; assumption.
+Qed.
+
+(** every tree containing [x] is [x] alone or a graft of [x] into a smaller tree *)
+Lemma prune_graft x (t : atree A) : In x (aleaves t) ->
+  t = Atom x \/
+  exists t' g, Permutation (aleaves t) (x :: aleaves t') /\ In g (graft t' x) /\ eqv t g.
+Proof.
+  induction t as [a|l IHl r IHr]; simpl; intros H.
+  - destruct H as [->|[]]. left; reflexivity.
+  - right. apply in_app_iff in H as [H|H].
+    + destruct (IHl H) as [->|[l' [g [P [Hg E]]]]].
+      * exists r, (Join (Atom x) r). split; [apply Permutation_refl|].
+        split; [destruct r; left; reflexivity|apply eqv_refl].
+      * exists (Join l' r), (Join g r). split; [|split].
+        -- simpl. rewrite P. apply Permutation_refl.
+        -- simpl. right. apply in_app_iff. left. apply in_map_iff. eexists; split; [reflexivity|exact Hg].
+        -- apply eR_same; [exact E|apply eqv_refl].
+    + destruct (IHr H) as [->|[r' [g [P [Hg E]]]]].
+      * exists l, (Join (Atom x) l). split; [|split].
+        -- simpl. apply Permutation_sym, Permutation_cons_append.
+        -- destruct l; left; reflexivity.
+        -- apply eR_swap; apply eqv_refl.
+      * exists (Join l r'), (Join l g). split; [|split].
+        -- simpl. rewrite P. apply Permutation_sym, Permutation_middle.
+        -- simpl. right. apply in_app_iff. right. apply in_map_iff. eexists; split; [reflexivity|exact Hg].
+        -- apply eR_same; [apply eqv_refl|exact E].
+Qed.
+
+(** ** arrange *)
+
+Lemma arrange_cons x y (ys : list A) :
+  arrange (x :: y :: ys) = flat_map (fun t => graft t x) (arrange (y :: ys)).
 Proof. reflexivity. Qed.
+
+(** soundness: the results are the binary trees over exactly the given atoms *)
+Lemma arrange_perm (xs : list A) : forall t, In t (arrange xs) -> Permutation (aleaves t) xs.
+Proof.
+  induction xs as [|x xs IH]; intros t H; [destruct H|].
+  destruct xs as [|y ys].
+  - simpl in H. destruct H as [<-|[]]. apply Permutation_refl.
+  - rewrite arrange_cons in H. apply in_flat_map in H as [t' [Ht' Hg]].
+    rewrite (graft_leaves _ _ _ Hg). constructor. apply IH, Ht'.
+Qed.
+
+(** counting: (2k-3)!! arrangements of k >= 2 atoms *)
+Lemma arrange_length (xs : list A) : length (arrange xs) = arr_count (length xs).
+Proof.
+  induction xs as [|x xs IH]; [reflexivity|].
+  destruct xs as [|y ys]; [reflexivity|].
+  rewrite arrange_cons.
+  rewrite (flat_map_length_const _ _ (2 * length (y :: ys) - 1)).
+  - rewrite IH. simpl. lia.
+  - intros t Ht. rewrite graft_length. rewrite (Permutation_length (arrange_perm _ _ Ht)). reflexivity.
+Qed.
+
+(** no repetition: no two results are equal up to child order *)
+Lemma arrange_fop (xs : list A) : NoDup xs -> FOP (fun t1 t2 => ~ eqv t1 t2) (arrange xs).
+Proof.
+  induction xs as [|x xs IH]; intros ND; [constructor|].
+  destruct xs as [|y ys]; [constructor; constructor|].
+  rewrite arrange_cons. inversion ND as [|? ? Nx ND']; subst.
+  apply (fop_flat_map (fun t1 t2 => ~ eqv t1 t2)); [apply IH, ND'| |].
+  - intros t Ht. pose proof (arrange_perm _ _ Ht) as P. apply graft_fop.
+    + apply nodup_dis. apply (Permutation_NoDup (Permutation_sym P)), ND'.
+    + intros Hx. apply Nx. apply (Permutation_in _ P Hx).
+  - intros t1 t2 g1 g2 H1 H2 Hn Hg1 Hg2 E. apply Hn.
+    pose proof (arrange_perm _ _ H1) as P1. pose proof (arrange_perm _ _ H2) as P2.
+    apply (graft_eqv_base x t1 t2 g1 g2); auto.
+    + intros Hx. apply Nx. apply (Permutation_in _ P1 Hx).
+    + intros Hx. apply Nx. apply (Permutation_in _ P2 Hx).
+Qed.
+
+(** completeness: every binary tree over the atoms is produced, up to child order *)
+Lemma arrange_complete (xs : list A) : forall T, Permutation (aleaves T) xs ->
+  exists t, In t (arrange xs) /\ eqv T t.
+Proof.
+  induction xs as [|x xs IH]; intros T P.
+  - apply Permutation_sym, Permutation_nil in P. destruct (aleaves_nonempty _ P).
+  - assert (In x (aleaves T)) as Hx by (apply (Permutation_in _ (Permutation_sym P)); left; reflexivity).
+    destruct (prune_graft x T Hx) as [->|[T' [g [PT [Hg E]]]]].
+    + simpl in P. apply Permutation_length in P. destruct xs; [|discriminate].
+      exists (Atom x). split; [left; reflexivity|apply eqv_refl].
+    + assert (Permutation (aleaves T') xs) as P'.
+      { apply (Permutation_cons_inv (a := x)). rewrite <- PT. exact P. }
+      destruct (IH _ P') as [t' [Ht' E']].
+      destruct (graft_eqv_compat x _ _ E' _ Hg) as [g' [Hg' Eg]].
+      exists g'. split.
+      * destruct xs as [|y ys].
+        -- apply Permutation_sym, Permutation_nil in P'. destruct (aleaves_nonempty _ P').
+        -- rewrite arrange_cons. apply in_flat_map. exists t'. auto.
+      * eapply eqv_trans; eauto.
+Qed.
+
+End Atoms.
+
+Notation eqv := (eqvR eq).
+
+(* ------------------------------------------------------------------ *)
+(** * Part 2: rose trees and their binary refinements *)
+
+Lemma rose_ind' (P : rose -> Prop) :
+  (forall n, P (RLeaf n)) ->
+  (forall lb cs, Forall P cs -> P (RNode lb cs)) ->
+  forall t, P t.
+Proof.
+  intros Hl Hn. fix IH 1. intros [n|lb cs]; [apply Hl|apply Hn].
+  induction cs as [|c cs IHcs]; constructor; [apply IH|exact IHcs].
+Qed.
+
+(** ** vocabulary of the specification *)
+
+Fixpoint rleaves (t : rose) : list lab :=
+  match t with
+  | RLeaf n => [n]
+  | RNode _ cs => flat_map rleaves cs
+  end.
+
+(* [bleaves b], the leaf labels of a binary tree left to right, is defined in the model file *)
+
+Definition rlabel (t : rose) : lab := match t with RLeaf n => n | RNode lb _ => lb end.
+Definition blabel (b : bt) : lab := match b with BLeaf n => n | BNode lb _ _ => lb end.
+
+(** every internal node has at least two children *)
+Fixpoint arity_ok (t : rose) : bool :=
+  match t with
+  | RLeaf _ => true
+  | RNode _ cs => (2 <=? length cs) && forallb arity_ok cs
+  end.
+
+Lemma arity_ok_node lb cs :
+  arity_ok (RNode lb cs) = true <-> 2 <= length cs /\ (forall c, In c cs -> arity_ok c = true).
+Proof.
+  change (arity_ok (RNode lb cs)) with ((2 <=? length cs) && forallb arity_ok cs).
+  rewrite andb_true_iff, Nat.leb_le, forallb_forall. tauto.
+Qed.
+
+(** [s] is (the subtree rooted at) a node of [t] *)
+Inductive rsub : rose -> rose -> Prop :=
+| rsub_refl t : rsub t t
+| rsub_child s c lb cs : In c cs -> rsub s c -> rsub s (RNode lb cs).
+
+Inductive bsub : bt -> bt -> Prop :=
+| bsub_refl b : bsub b b
+| bsub_l s lb l r : bsub s l -> bsub s (BNode lb l r)
+| bsub_r s lb l r : bsub s r -> bsub s (BNode lb l r).
+
+(** equality of labelled binary trees up to the order of children *)
+Inductive beqv : bt -> bt -> Prop :=
+| be_leaf n : beqv (BLeaf n) (BLeaf n)
+| be_same lb l r l' r' : beqv l l' -> beqv r r' -> beqv (BNode lb l r) (BNode lb l' r')
+| be_swap lb l r l' r' : beqv l r' -> beqv r l' -> beqv (BNode lb l r) (BNode lb l' r').
+
+(** [b] keeps every clade of [t], with the label of the node it comes from
+    (a leaf is the clade of itself: leaves keep their names) *)
+Definition keeps_clades (t : rose) (b : bt) : Prop :=
+  forall s, rsub s t ->
+  exists b', bsub b' b /\ Permutation (bleaves b') (rleaves s) /\ blabel b' = rlabel s.
+
+(** [b] is a binary refinement of [t]: a leaf is refined by itself; a node is
+    refined by refining every child and joining the refined children by an
+    arbitrary binary tree whose new inner nodes are unlabelled and whose root
+    receives the label of the node. *)
+Fixpoint refines (t : rose) (b : bt) {struct t} : Prop :=
+  match t with
+  | RLeaf n => b = BLeaf n
+  | RNode lb cs =>
+      exists (ds : list bt) (T : atree bt),
+        (fix all2 (cs : list rose) (ds : list bt) {struct cs} : Prop :=
+           match cs, ds with
+           | [], [] => True
+           | c :: cs', d :: ds' => refines c d /\ all2 cs' ds'
+           | _, _ => False
+           end) cs ds
+        /\ Permutation (aleaves T) ds /\ b = relabel lb (flat T)
+  end.
+
+Lemma refines_node lb cs b :
+  refines (RNode lb cs) b <->
+  exists ds T, Forall2 refines cs ds /\ Permutation (aleaves T) ds /\ b = relabel lb (flat T).
+Proof.
+  simpl.
+  assert (forall cs ds,
+    (fix all2 (cs : list rose) (ds : list bt) {struct cs} : Prop :=
+       match cs, ds with
+       | [], [] => True
+       | c :: cs', d :: ds' => refines c d /\ all2 cs' ds'
+       | _, _ => False
+       end) cs ds <-> Forall2 refines cs ds) as EQ.
+  { clear. induction cs as [|c cs IH]; intros [|d ds].
+    - split; intros _; constructor.
+    - split; intros H; [destruct H|inversion H].
+    - split; intros H; [destruct H|inversion H].
+    - split.
+      + intros [H1 H2]. constructor; [exact H1|apply IH, H2].
+      + intros H. inversion H; subst. split; [assumption|apply IH; assumption]. }
+  split; intros [ds [T [H1 H2]]]; exists ds, T; (split; [apply EQ, H1|exact H2]).
+Qed.
+
+(** ** small facts *)
+
+Lemma bleaves_nonempty b : bleaves b <> [].
+Proof. induction b as [n|lb l IHl r _]; simpl; [discriminate|]. destruct (bleaves l); [contradiction|discriminate]. Qed.
+
+Lemma bleaves_inhab b : exists y, In y (bleaves b).
+Proof. pose proof (bleaves_nonempty b). destruct (bleaves b) as [|y ?]; [contradiction|exists y; left; reflexivity]. Qed.
+
+Lemma beqv_refl b : beqv b b.
+Proof. induction b; [apply be_leaf|apply be_same; assumption]. Qed.
+
+Lemma beqv_sym a b : beqv a b -> beqv b a.
+Proof. induction 1; [apply be_leaf|apply be_same; assumption|apply be_swap; assumption]. Qed.
+
+Lemma beqv_leaves a b : beqv a b -> Permutation (bleaves a) (bleaves b).
+Proof.
+  induction 1 as [n|lb l r l' r' _ IH1 _ IH2|lb l r l' r' _ IH1 _ IH2]; simpl.
+  - apply Permutation_refl.
+  - apply Permutation_app; assumption.
+  - rewrite (Permutation_app_comm (bleaves l') (bleaves r')). apply Permutation_app; assumption.
+Qed.
+
+Lemma bsub_trans a b c : bsub a b -> bsub b c -> bsub a c.
+Proof. intros H1 H2. induction H2; [exact H1|apply bsub_l; auto|apply bsub_r; auto]. Qed.
+
+Lemma bleaves_flat T : bleaves (flat T) = flat_map bleaves (aleaves T).
+Proof.
+  induction T as [a|l IHl r IHr]; simpl; [rewrite app_nil_r; reflexivity|].
+  rewrite flat_map_app, IHl, IHr. reflexivity.
+Qed.
+
+Lemma atom_bsub T a : In a (aleaves T) -> bsub a (flat T).
+Proof.
+  induction T as [x|l IHl r IHr]; simpl; intros H.
+  - destruct H as [->|[]]. apply bsub_refl.
+  - apply in_app_iff in H as [H|H]; [apply bsub_l|apply bsub_r]; auto.
+Qed.
+
+Lemma atom_leaves_in T a y : In a (aleaves T) -> In y (bleaves a) -> In y (bleaves (flat T)).
+Proof. intros Ha Hy. rewrite bleaves_flat. apply in_flat_map. exists a. auto. Qed.
+
+Lemma atom_leaves_le T a : In a (aleaves T) -> length (bleaves a) <= length (bleaves (flat T)).
+Proof.
+  induction T as [x|l IHl r IHr]; simpl; intros H.
+  - destruct H as [->|[]]. lia.
+  - rewrite app_length. apply in_app_iff in H as [H|H]; [apply IHl in H|apply IHr in H]; lia.
+Qed.
+
+Lemma big_is_join {A} (T : atree A) : 2 <= length (aleaves T) -> exists l r, T = Join l r.
+Proof. destruct T as [a|l r]; simpl; [lia|]. intros _. exists l, r. reflexivity. Qed.
+
+Lemma Forall2_in_l {A B} (R : A -> B -> Prop) l1 l2 a :
+  Forall2 R l1 l2 -> In a l1 -> exists b, In b l2 /\ R a b.
+Proof.
+  induction 1 as [|x y l1 l2 Hxy _ IH]; intros H; [destruct H|].
+  destruct H as [->|H]; [exists y; split; [left; reflexivity|exact Hxy]|].
+  destruct (IH H) as [b [Hb Hr]]. exists b. split; [right; exact Hb|exact Hr].
+Qed.
+
+Lemma Forall2_in_r {A B} (R : A -> B -> Prop) l1 l2 b :
+  Forall2 R l1 l2 -> In b l2 -> exists a, In a l1 /\ R a b.
+Proof.
+  induction 1 as [|x y l1 l2 Hxy _ IH]; intros H; [destruct H|].
+  destruct H as [->|H]; [exists x; split; [left; reflexivity|exact Hxy]|].
+  destruct (IH H) as [a [Ha Hr]]. exists a. split; [right; exact Ha|exact Hr].
+Qed.
+
+Lemma Forall2_impl_in {A B} (R R' : A -> B -> Prop) l1 l2 :
+  Forall2 R l1 l2 -> (forall a b, In a l1 -> In b l2 -> R a b -> R' a b) -> Forall2 R' l1 l2.
+Proof.
+  induction 1 as [|x y l1 l2 Hxy _ IH]; intros HX; constructor.
+  - apply HX; auto; left; reflexivity.
+  - apply IH. intros a b Ha Hb. apply HX; right; assumption.
+Qed.
+
+Lemma Forall2_flip' {A B} (R : A -> B -> Prop) l1 l2 :
+  Forall2 R l1 l2 -> Forall2 (fun b a => R a b) l2 l1.
+Proof. induction 1; constructor; assumption. Qed.
+
+Lemma in_product_map {A B} (f : A -> list B) cs xs :
+  In xs (product (map f cs)) <-> Forall2 (fun c x => In x (f c)) cs xs.
+Proof.
+  rewrite in_product. split.
+  - revert xs. induction cs as [|c cs IH]; intros xs H; inversion H; subst; constructor; auto.
+  - induction 1; simpl; constructor; auto.
+Qed.
+
+Lemma flat_map_perm_pointwise {A B C} (f : A -> list C) (g : B -> list C) l1 l2 :
+  Forall2 (fun a b => Permutation (f a) (g b)) l1 l2 -> Permutation (flat_map f l1) (flat_map g l2).
+Proof. induction 1; simpl; [constructor|apply Permutation_app; assumption]. Qed.
+
+Lemma nodup_app_inv {A} (l1 l2 : list A) :
+  NoDup (l1 ++ l2) -> NoDup l1 /\ NoDup l2 /\ (forall y, In y l1 -> In y l2 -> False).
+Proof.
+  induction l1 as [|x l1 IH]; simpl; intros H.
+  - split; [constructor|split; [exact H|tauto]].
+  - inversion H as [|? ? Hn Hd]; subst. destruct (IH Hd) as [N1 [N2 D]].
+    rewrite in_app_iff in Hn. split; [constructor; tauto|split; [exact N2|]].
+    intros y [->|Hy] Hy2; [tauto|eauto].
+Qed.
+
+(** ** binarize produces refinements *)
+
+Lemma in_binarize_node lb cs b :
+  In b (binarize (RNode lb cs)) <->
+  exists ds T, Forall2 (fun c d => In d (binarize c)) cs ds /\ In T (arrange ds) /\ b = relabel lb (flat T).
+Proof.
+  simpl. rewrite in_map_iff. split.
+  - intros [x [<- Hx]]. apply in_flat_map in Hx as [ds [Hds Hx]].
+    apply in_map_iff in Hx as [T [<- HT]]. exists ds, T.
+    split; [apply in_product_map, Hds|auto].
+  - intros [ds [T [Hds [HT ->]]]]. exists (flat T). split; [reflexivity|].
+    apply in_flat_map. exists ds. split; [apply in_product_map, Hds|].
+    apply in_map, HT.
+Qed.
+
+Lemma binarize_refines : forall t b, In b (binarize t) -> refines t b.
+Proof.
+  induction t as [n|lb cs IH] using rose_ind'; intros b H.
+  - simpl in H. destruct H as [<-|[]]. reflexivity.
+  - apply in_binarize_node in H as [ds [T [Hds [HT ->]]]].
+    apply refines_node. exists ds, T. split; [|split; [apply arrange_perm, HT|reflexivity]].
+    apply (Forall2_impl_in _ _ _ _ Hds). intros c d Hc _ Hd.
+    rewrite Forall_forall in IH. apply IH; assumption.
+Qed.
+
+(** ** refinements keep leaves, clades and labels *)
+
+Lemma refines_sound : forall t b, arity_ok t = true -> refines t b ->
+  Permutation (bleaves b) (rleaves t) /\ keeps_clades t b.
+Proof.
+  induction t as [n|lb cs IH] using rose_ind'; intros b AR H.
+  - simpl in H. subst b. split; [apply Permutation_refl|].
+    intros s Hs. inversion Hs; subst. exists (BLeaf n). split; [apply bsub_refl|].
+    split; [apply Permutation_refl|reflexivity].
+  - apply refines_node in H as [ds [T [F2 [PT ->]]]].
+    apply arity_ok_node in AR as [AR1 AR2]. rewrite Forall_forall in IH.
+    assert (Forall2 (fun c d => Permutation (bleaves d) (rleaves c) /\ keeps_clades c d) cs ds) as F2'.
+    { apply (Forall2_impl_in _ _ _ _ F2). intros c d Hc _ Hr. apply IH; auto. }
+    assert (2 <= length (aleaves T)) as HL.
+    { rewrite (Permutation_length PT). rewrite <- (Forall2_length' _ _ _ F2). exact AR1. }
+    destruct (big_is_join T HL) as [l [r ->]].
+    assert (Permutation (bleaves (BNode lb (flat l) (flat r))) (rleaves (RNode lb cs))) as PL.
+    { change (bleaves (BNode lb (flat l) (flat r))) with (bleaves (flat (Join l r))).
+      rewrite bleaves_flat. rewrite (Permutation_flat_map bleaves PT). simpl.
+      apply flat_map_perm_pointwise.
+      apply Forall2_flip'. apply (Forall2_impl_in _ _ _ _ F2'). intros c d _ _ [P _]. exact P. }
+    split; [exact PL|].
+    intros s Hs. inversion Hs as [|? c ? ? Hc Hsc]; subst.
+    + exists (BNode lb (flat l) (flat r)). split; [apply bsub_refl|split; [exact PL|reflexivity]].
+    + destruct (Forall2_in_l _ _ _ _ F2' Hc) as [d [Hd [_ KC]]].
+      destruct (KC s Hsc) as [b' [Hb' [Pb' Lb']]].
+      exists b'. split; [|split; assumption].
+      apply (bsub_trans _ d); [exact Hb'|].
+      apply (Permutation_in _ (Permutation_sym PT)) in Hd. simpl in Hd.
+      apply in_app_iff in Hd as [Hd|Hd]; [apply bsub_l|apply bsub_r]; apply atom_bsub, Hd.
+Qed.
+
+(** ** every refinement is produced, up to child order *)
+
+Lemma reatom {A} (R : A -> A -> Prop) (T : atree A) : forall l',
+  Forall2 R (aleaves T) l' -> exists T', aleaves T' = l' /\ eqvR R T T'.
+Proof.
+  induction T as [a|l IHl r IHr]; intros l' F; simpl in F.
+  - inversion F as [|? b ? ? Hab F']; subst. inversion F'; subst.
+    exists (Atom b). split; [reflexivity|apply eR_atom, Hab].
+  - apply Forall2_app_inv_l in F as [l1 [l2 [F1 [F2 ->]]]].
+    destruct (IHl _ F1) as [l'' [<- E1]]. destruct (IHr _ F2) as [r'' [<- E2]].
+    exists (Join l'' r''). split; [reflexivity|apply eR_same; assumption].
+Qed.
+
+Lemma flat_beqv T1 T2 : eqvR beqv T1 T2 -> beqv (flat T1) (flat T2).
+Proof. induction 1; simpl; [assumption|apply be_same; assumption|apply be_swap; assumption]. Qed.
+
+Lemma relabel_beqv lb a b : beqv a b -> beqv (relabel lb a) (relabel lb b).
+Proof. intros H. destruct H; simpl; [apply be_leaf|apply be_same; assumption|apply be_swap; assumption]. Qed.
+
+Lemma refines_complete : forall t b, refines t b -> exists b', In b' (binarize t) /\ beqv b b'.
+Proof.
+  induction t as [n|lb cs IH] using rose_ind'; intros b H.
+  - simpl in H. subst b. exists (BLeaf n). split; [left; reflexivity|apply be_leaf].
+  - apply refines_node in H as [ds [T [F2 [PT ->]]]].
+    rewrite Forall_forall in IH.
+    assert (exists ds', Forall2 (fun c d' => In d' (binarize c)) cs ds' /\ Forall2 beqv ds ds') as [ds' [M B]].
+    { clear PT. induction F2 as [|c d cs ds Hcd _ IH2].
+      - exists []. split; constructor.
+      - destruct IH2 as [ds' [M B]]; [intros x Hx; apply IH; right; exact Hx|].
+        destruct (IH c (or_introl eq_refl) d Hcd) as [d' [Hd' Bd]].
+        exists (d' :: ds'). split; constructor; assumption. }
+    destruct (perm_forall2 beqv _ _ PT _ B) as [l' [Pl' Fl']].
+    destruct (reatom beqv T _ Fl') as [T' [<- E]].
+    destruct (arrange_complete ds' T' Pl') as [t' [Ht' E']].
+    exists (relabel lb (flat t')). split.
+    + apply in_binarize_node. exists ds', t'. auto.
+    + apply relabel_beqv, flat_beqv.
+      apply (eqvR_trans beqv eq beqv) with (t2 := T'); [intros; subst; assumption|exact E|exact E'].
+Qed.
+
+(** ** counting *)
+
+Lemma binarize_length : forall t, length (binarize t) = refinement_count t.
+Proof.
+  induction t as [n|lb cs IH] using rose_ind'; [reflexivity|].
+  simpl. rewrite map_length.
+  rewrite (flat_map_length_const _ _ (arr_count (length cs))).
+  - rewrite product_length. rewrite Nat.mul_comm. f_equal.
+    induction IH as [|c cs Hc _ IH2]; simpl; [reflexivity|]. rewrite Hc, IH2. reflexivity.
+  - intros ds Hds. rewrite map_length, arrange_length. f_equal.
+    apply in_product in Hds. apply Forall2_length' in Hds. rewrite map_length in Hds. exact Hds.
+Qed.
+
+(** ** no refinement is produced twice *)
+
+(** [ds] is a family of trees whose leaf lists are, position by position, the lists [Ls] *)
+Definition fam (ds : list bt) (Ls : list (list lab)) : Prop :=
+  Forall2 (fun d L => Permutation (bleaves d) L) ds Ls.
+
+Lemma fam_tail_in ds Ls a y : fam ds Ls -> In a ds -> In y (bleaves a) -> In y (concat Ls).
+Proof.
+  intros F Ha Hy. destruct (Forall2_in_l _ _ _ _ F Ha) as [L' [HL' P']].
+  apply in_concat. exists L'. split; [exact HL'|]. apply (Permutation_in _ P' Hy).
+Qed.
+
+Lemma fam_same_elt ds Ls : fam ds Ls -> NoDup (concat Ls) ->
+  forall a1 a2 y, In a1 ds -> In a2 ds -> In y (bleaves a1) -> In y (bleaves a2) -> a1 = a2.
+Proof.
+  induction 1 as [|d L ds Ls HdL F IH]; intros ND a1 a2 y H1 H2 Y1 Y2; [destruct H1|].
+  simpl in ND. apply nodup_app_inv in ND as [_ [ND' DJ]].
+  destruct H1 as [<-|H1], H2 as [<-|H2].
+  - reflexivity.
+  - exfalso. apply (DJ y); [apply (Permutation_in _ HdL Y1)|apply (fam_tail_in ds Ls a2); auto].
+  - exfalso. apply (DJ y); [apply (Permutation_in _ HdL Y2)|apply (fam_tail_in ds Ls a1); auto].
+  - eapply IH; eauto.
+Qed.
+
+Lemma fam_nodup ds Ls : fam ds Ls -> NoDup (concat Ls) -> NoDup ds.
+Proof.
+  induction 1 as [|d L ds Ls HdL F IH]; intros ND; [constructor|].
+  simpl in ND. apply nodup_app_inv in ND as [_ [ND' DJ]].
+  constructor; [|apply IH, ND'].
+  intros Hd. destruct (bleaves_inhab d) as [y Hy].
+  apply (DJ y); [apply (Permutation_in _ HdL Hy)|apply (fam_tail_in ds Ls d); auto].
+Qed.
+
+Lemma fam_cross ds1 Ls : fam ds1 Ls -> forall ds2, fam ds2 Ls -> NoDup (concat Ls) ->
+  forall a1 a2 y, In a1 ds1 -> In a2 ds2 -> In y (bleaves a1) -> In y (bleaves a2) ->
+  Permutation (bleaves a1) (bleaves a2).
+Proof.
+  induction 1 as [|d1 L ds1 Ls HdL F1 IH]; intros ds2 F2 ND a1 a2 y H1 H2 Y1 Y2; [destruct H1|].
+  inversion F2 as [|d2 ? ds2' ? HdL2 F2']; subst.
+  simpl in ND. apply nodup_app_inv in ND as [_ [ND' DJ]].
+  destruct H1 as [<-|H1], H2 as [<-|H2].
+  - rewrite HdL, HdL2. apply Permutation_refl.
+  - exfalso. apply (DJ y); [apply (Permutation_in _ HdL Y1)|apply (fam_tail_in ds2' Ls a2); auto].
+  - exfalso. apply (DJ y); [apply (Permutation_in _ HdL2 Y2)|apply (fam_tail_in ds1 Ls a1); auto].
+  - eapply (IH ds2'); eauto.
+Qed.
+
+Lemma fam_match ds1 Ls : fam ds1 Ls -> forall ds2, fam ds2 Ls -> NoDup (concat Ls) ->
+  (forall a1, In a1 ds1 -> exists a2, In a2 ds2 /\ beqv a1 a2) -> Forall2 beqv ds1 ds2.
+Proof.
+  induction 1 as [|d1 L ds1 Ls HdL F1 IH]; intros ds2 F2 ND HM.
+  - inversion F2; subst. constructor.
+  - inversion F2 as [|d2 ? ds2' ? HdL2 F2']; subst.
+    simpl in ND. apply nodup_app_inv in ND as [_ [ND' DJ]].
+    constructor.
+    + destruct (HM d1 (or_introl eq_refl)) as [a2 [[<-|Ha2] B]]; [exact B|exfalso].
+      destruct (bleaves_inhab d1) as [y Hy].
+      apply (DJ y); [apply (Permutation_in _ HdL Hy)|].
+      apply (fam_tail_in ds2' Ls a2); auto. apply (Permutation_in _ (beqv_leaves _ _ B) Hy).
+    + apply IH; auto. intros a1 Ha1.
+      destruct (HM a1 (or_intror Ha1)) as [a2 [[<-|Ha2] B]]; [exfalso|exists a2; auto].
+      destruct (bleaves_inhab a1) as [y Hy].
+      apply (DJ y); [|apply (fam_tail_in ds1 Ls a1); auto].
+      apply (Permutation_in _ HdL2). apply (Permutation_in _ (beqv_leaves _ _ B) Hy).
+Qed.
+
+Lemma bleaves_pos b : 1 <= length (bleaves b).
+Proof. pose proof (bleaves_nonempty b). destruct (bleaves b); [contradiction|simpl; lia]. Qed.
+
+(** atom boundaries can be recovered from the flattened trees when atoms that
+    share a leaf have the same number of leaves *)
+Lemma unflatten T1 : forall T2,
+  (forall a1 a2 y, In a1 (aleaves T1) -> In a2 (aleaves T2) ->
+     In y (bleaves a1) -> In y (bleaves a2) -> length (bleaves a1) = length (bleaves a2)) ->
+  beqv (flat T1) (flat T2) -> eqvR beqv T1 T2.
+Proof.
+  induction T1 as [a1|l1 IHl r1 IHr]; intros [a2|l2 r2] HS E; simpl in E.
+  - apply eR_atom, E.
+  - exfalso. pose proof (beqv_leaves _ _ E) as P. simpl in P.
+    destruct (aleaves_inhab l2) as [a2 Ha2]. destruct (bleaves_inhab a2) as [y Hy].
+    assert (In y (bleaves a1)) as Hy1.
+    { apply (Permutation_in _ (Permutation_sym P)). apply in_app_iff. left. eapply atom_leaves_in; eauto. }
+    assert (In a2 (aleaves (Join l2 r2))) as Ha2' by (simpl; apply in_app_iff; auto).
+    pose proof (HS a1 a2 y (or_introl eq_refl) Ha2' Hy1 Hy) as HL.
+    pose proof (atom_leaves_le _ _ Ha2). apply Permutation_length in P. rewrite app_length in P.
+    pose proof (bleaves_pos (flat r2)). lia.
+  - exfalso. pose proof (beqv_leaves _ _ E) as P. simpl in P.
+    destruct (aleaves_inhab l1) as [a1 Ha1]. destruct (bleaves_inhab a1) as [y Hy].
+    assert (In y (bleaves a2)) as Hy2.
+    { apply (Permutation_in _ P). apply in_app_iff. left. eapply atom_leaves_in; eauto. }
+    assert (In a1 (aleaves (Join l1 r1))) as Ha1' by (simpl; apply in_app_iff; auto).
+    pose proof (HS a1 a2 y Ha1' (or_introl eq_refl) Hy Hy2) as HL.
+    pose proof (atom_leaves_le _ _ Ha1). apply Permutation_length in P. rewrite app_length in P.
+    pose proof (bleaves_pos (flat r1)). lia.
+  - inversion E as [|? ? ? ? ? E1 E2|? ? ? ? ? E1 E2]; subst.
+    + apply eR_same; [apply IHl|apply IHr]; auto; intros a1 a2 y H1 H2; apply HS; simpl; apply in_app_iff; auto.
+    + apply eR_swap; [apply IHl|apply IHr]; auto; intros a1 a2 y H1 H2; apply HS; simpl; apply in_app_iff; auto.
+Qed.
+
+Lemma nodup_flat_map_in {A B} (f : A -> list B) l a : NoDup (flat_map f l) -> In a l -> NoDup (f a).
+Proof.
+  induction l as [|x l IH]; intros ND H; [destruct H|]. simpl in ND.
+  apply nodup_app_inv in ND as [N1 [N2 _]]. destruct H as [->|H]; auto.
+Qed.
+
+Lemma binarize_fop : forall t, NoDup (rleaves t) -> arity_ok t = true ->
+  FOP (fun a b => ~ beqv a b) (binarize t).
+Proof.
+  induction t as [n|lb cs IH] using rose_ind'; intros ND AR.
+  - simpl. constructor; constructor.
+  - apply arity_ok_node in AR as [AR1 AR2]. rewrite Forall_forall in IH.
+    simpl in ND. rewrite flat_map_concat_map in ND.
+    (* every tuple of the product is a family over the children's leaf lists *)
+    assert (forall ds, In ds (product (map binarize cs)) ->
+              fam ds (map rleaves cs) /\ length ds = length cs) as FAM.
+    { intros ds Hds. apply in_product_map in Hds. split.
+      - unfold fam. clear -Hds AR2. induction Hds as [|c d cs ds Hd _ IHF]; simpl; constructor.
+        + apply refines_sound; [apply AR2; left; reflexivity|apply binarize_refines, Hd].
+        + apply IHF. intros x Hx. apply AR2. right; exact Hx.
+      - symmetry. eapply Forall2_length'; eauto. }
+    assert (forall ds T, In ds (product (map binarize cs)) -> In T (arrange ds) ->
+              exists l r, flat T = BNode None l r) as JOIN.
+    { intros ds T Hds HT. destruct (FAM ds Hds) as [_ HL].
+      destruct (big_is_join T) as [l [r ->]].
+      - rewrite (Permutation_length (arrange_perm _ _ HT)). lia.
+      - simpl. eauto. }
+    simpl.
+    apply (fop_map (fun a b => ~ beqv a b)).
+    + apply (fop_flat_map (fun xs ys => ~ Forall2 beqv xs ys)).
+      * apply product_fop. apply Forall_forall. intros l Hl.
+        apply in_map_iff in Hl as [c [<- Hc]]. apply IH; auto.
+        rewrite <- flat_map_concat_map in ND. eapply nodup_flat_map_in; eauto.
+      * intros ds Hds. destruct (FAM ds Hds) as [F _].
+        apply (fop_map (fun t1 t2 => ~ eqv t1 t2)); [apply arrange_fop; eapply fam_nodup; eauto|].
+        intros T1 T2 H1 H2 Hn E. apply Hn.
+        pose proof (arrange_perm _ _ H1) as P1. pose proof (arrange_perm _ _ H2) as P2.
+        assert (forall a1 a2 y, In a1 (aleaves T1) -> In a2 (aleaves T2) ->
+                  In y (bleaves a1) -> In y (bleaves a2) -> a1 = a2) as SAME.
+        { intros a1 a2 y Ha1 Ha2. apply (fam_same_elt ds _ F ND).
+          - apply (Permutation_in _ P1 Ha1).
+          - apply (Permutation_in _ P2 Ha2). }
+        apply (eqvR_mono beqv eq).
+        -- apply unflatten; [|exact E]. intros a1 a2 y Ha1 Ha2 Y1 Y2.
+           rewrite (SAME a1 a2 y Ha1 Ha2 Y1 Y2). reflexivity.
+        -- intros a1 a2 Ha1 Ha2 B. destruct (bleaves_inhab a1) as [y Hy].
+           apply (SAME a1 a2 y Ha1 Ha2 Hy). apply (Permutation_in _ (beqv_leaves _ _ B) Hy).
+      * intros ds1 ds2 x y Hds1 Hds2 Hn Hx Hy E. apply Hn.
+        apply in_map_iff in Hx as [T1 [<- H1]]. apply in_map_iff in Hy as [T2 [<- H2]].
+        destruct (FAM ds1 Hds1) as [F1 _]. destruct (FAM ds2 Hds2) as [F2 _].
+        pose proof (arrange_perm _ _ H1) as P1. pose proof (arrange_perm _ _ H2) as P2.
+        assert (eqvR beqv T1 T2) as ER.
+        { apply unflatten; [|exact E]. intros a1 a2 z Ha1 Ha2 Z1 Z2.
+          apply Permutation_length. apply (fam_cross ds1 _ F1 ds2 F2 ND a1 a2 z); auto.
+          - apply (Permutation_in _ P1 Ha1).
+          - apply (Permutation_in _ P2 Ha2). }
+        apply (fam_match ds1 _ F1 ds2 F2 ND). intros a1 Ha1.
+        apply (Permutation_in _ (Permutation_sym P1)) in Ha1.
+        destruct (eqvR_in _ _ _ ER a1 Ha1) as [a2 [Ha2 B]].
+        exists a2. split; [apply (Permutation_in _ P2 Ha2)|exact B].
+    + intros a b Ha Hb Hn E. apply Hn.
+      apply in_flat_map in Ha as [ds1 [Hds1 Ha]]. apply in_map_iff in Ha as [T1 [<- H1]].
+      apply in_flat_map in Hb as [ds2 [Hds2 Hb]]. apply in_map_iff in Hb as [T2 [<- H2]].
+      destruct (JOIN _ _ Hds1 H1) as [l1 [r1 J1]]. destruct (JOIN _ _ Hds2 H2) as [l2 [r2 J2]].
+      rewrite J1, J2 in *. simpl in E.
+      inversion E as [|? ? ? ? ? E1 E2|? ? ? ? ? E1 E2]; subst; [apply be_same|apply be_swap]; assumption.
+Qed.
+
+(** ** a binary tree is its own and only refinement *)
+
+Lemma binarize_binary : forall t, is_binary t = true ->
+  exists b, rose_to_bt t = Some b /\ binarize t = [b].
+Proof.
+  induction t as [n|lb cs IH] using rose_ind'; intros H.
+  - exists (BLeaf n). split; reflexivity.
+  - change (is_binary (RNode lb cs)) with (Nat.eqb (length cs) 2 && forallb is_binary cs) in H.
+    apply andb_true_iff in H as [H1 H2]. apply Nat.eqb_eq in H1.
+    destruct cs as [|a [|b [|? ?]]]; try discriminate.
+    simpl in H2. rewrite andb_true_r in H2. apply andb_true_iff in H2 as [Ha Hb].
+    inversion IH as [|? ? IHa IH']; subst. inversion IH' as [|? ? IHb _]; subst.
+    destruct (IHa Ha) as [x [Hx Bx]]. destruct (IHb Hb) as [y [Hy By]].
+    exists (BNode lb x y). split.
+    + simpl. rewrite Hx, Hy. reflexivity.
+    + simpl. rewrite Bx, By. reflexivity.
+Qed.
+
+Lemma input_binarize_product o s : input_binarize o s = list_prod (binarize o) (binarize s).
+Proof.
+  unfold input_binarize. destruct (is_binary o && is_binary s) eqn:E; [|reflexivity].
+  apply andb_true_iff in E as [Eo Es].
+  destruct (binarize_binary o Eo) as [x [-> ->]]. destruct (binarize_binary s Es) as [y [-> ->]].
+  reflexivity.
+Qed.
+
+(** ** the statements in the form used by [Properties/C08.v] *)
+
+(** generated trees are binary in the sense of the code's [is_binary] *)
+Fixpoint bt_to_rose (b : bt) : rose :=
+  match b with
+  | BLeaf n => RLeaf n
+  | BNode lb l r => RNode lb [bt_to_rose l; bt_to_rose r]
+  end.
+
+Lemma bt_is_binary b : is_binary (bt_to_rose b) = true.
+Proof. induction b as [n|lb l IHl r IHr]; [reflexivity|]. simpl. rewrite IHl, IHr. reflexivity. Qed.
+
+Lemma rose_to_bt_to_rose b : rose_to_bt (bt_to_rose b) = Some b.
+Proof. induction b as [n|lb l IHl r IHr]; [reflexivity|]. simpl. rewrite IHl, IHr. reflexivity. Qed.
+
+Lemma bt_to_rose_leaves b : rleaves (bt_to_rose b) = bleaves b.
+Proof. induction b as [n|lb l IHl r IHr]; [reflexivity|]. simpl. rewrite IHl, IHr, app_nil_r. reflexivity. Qed.
+
+Theorem binarize_sound : forall t b, arity_ok t = true -> In b (binarize t) ->
+  is_binary (bt_to_rose b) = true /\
+  Permutation (bleaves b) (rleaves t) /\
+  (forall s, rsub s t ->
+     exists b', bsub b' b /\ Permutation (bleaves b') (rleaves s) /\ blabel b' = rlabel s).
+Proof.
+  intros t b AR H. split; [apply bt_is_binary|].
+  apply refines_sound; [exact AR|apply binarize_refines, H].
+Qed.
+
+(** a clade with a single leaf is that leaf: leaves keep their names *)
+Lemma single_leaf_clade b n : Permutation (bleaves b) [n] -> b = BLeaf n.
+Proof.
+  intros P. destruct b as [m|lb l r]; simpl in P.
+  - apply Permutation_length_1 in P. subst. reflexivity.
+  - apply Permutation_length in P. rewrite app_length in P. simpl in P.
+    pose proof (bleaves_pos l). pose proof (bleaves_pos r). lia.
+Qed.
+
+Theorem binarize_leaves_kept : forall t b n, arity_ok t = true -> In b (binarize t) ->
+  rsub (RLeaf n) t -> bsub (BLeaf n) b.
+Proof.
+  intros t b n AR H Hs. destruct (binarize_sound t b AR H) as [_ [_ KC]].
+  destruct (KC _ Hs) as [b' [Hb' [P _]]]. simpl in P.
+  rewrite (single_leaf_clade _ _ P) in Hb'. exact Hb'.
+Qed.
+
+Theorem arrange_count_double_fact {A} (xs : list A) k :
+  length xs = S k -> length (arrange xs) = odd_double_fact k.
+Proof. intros H. rewrite arrange_length, H. reflexivity. Qed.
+
+(** ** the literal variant (explicit [ignore] set) agrees with the atom variant *)
+
+Lemma flat_map_ext_in' {A B} (f g : A -> list B) l :
+  (forall a, In a l -> f a = g a) -> flat_map f l = flat_map g l.
+Proof.
+  induction l as [|x l IH]; intros H; simpl; [reflexivity|].
+  rewrite H by (left; reflexivity). rewrite IH; [reflexivity|]. intros a Ha. apply H. right; exact Ha.
+Qed.
+
+Lemma flat_map_of_map {A B C} (f : B -> list C) (g : A -> B) l :
+  flat_map f (map g l) = flat_map (fun x => f (g x)) l.
+Proof. induction l as [|x l IH]; simpl; [reflexivity|]. rewrite IH. reflexivity. Qed.
+
+Lemma map_of_flat_map {A B C} (f : B -> C) (g : A -> list B) l :
+  map f (flat_map g l) = flat_map (fun x => map f (g x)) l.
+Proof. induction l as [|x l IH]; simpl; [reflexivity|]. rewrite map_app, IH. reflexivity. Qed.
+
+Lemma product_fam cs ds :
+  (forall c, In c cs -> arity_ok c = true) ->
+  In ds (product (map binarize cs)) -> fam ds (map rleaves cs).
+Proof.
+  intros AR Hds. apply in_product_map in Hds. unfold fam.
+  induction Hds as [|c d cs ds Hd _ IHF]; simpl; constructor.
+  - apply refines_sound; [apply AR; left; reflexivity|apply binarize_refines, Hd].
+  - apply IHF. intros x Hx. apply AR. right; exact Hx.
+Qed.
+
+Section LiteralProofs.
+Variable same_id : bt -> bt -> bool.
+Hypothesis same_id_refl : forall a, same_id a a = true.
+Hypothesis same_id_leaves :
+  forall a b, same_id a b = true -> forall y, In y (bleaves a) <-> In y (bleaves b).
+
+(** no subtree made of two or more atoms has the id of a member of [ign] *)
+Fixpoint joins_free (ign : list bt) (T : atree bt) : Prop :=
+  match T with
+  | Atom _ => True
+  | Join l r =>
+      existsb (same_id (flat (Join l r))) ign = false /\ joins_free ign l /\ joins_free ign r
+  end.
+
+Lemma graft_lit_atoms ign x : forall T,
+  (forall a, In a (aleaves T) -> In a ign) -> joins_free ign T ->
+  graft_lit same_id ign (flat T) x = map flat (graft T x).
+Proof.
+  induction T as [a|l IHl r IHr]; intros HA JF.
+  - simpl. destruct a as [n|lb l r]; [reflexivity|].
+    assert (existsb (same_id (BNode lb l r)) ign = true) as E.
+    { apply existsb_exists. exists (BNode lb l r).
+      split; [apply HA; left; reflexivity|apply same_id_refl]. }
+    simpl. rewrite E. reflexivity.
+  - destruct JF as [NF [Jl Jr]].
+    change (flat (Join l r)) with (BNode None (flat l) (flat r)) in *.
+    simpl graft_lit. rewrite NF.
+    rewrite IHl, IHr; auto; try (intros a Ha; apply HA; simpl; apply in_app_iff; auto).
+    simpl. rewrite map_app, !map_map. reflexivity.
+Qed.
+
+Definition separated (xs : list bt) : Prop :=
+  forall a1 a2 y, In a1 xs -> In a2 xs -> In y (bleaves a1) -> In y (bleaves a2) -> a1 = a2.
+
+Lemma sep_joins_free xs : separated xs ->
+  forall T, (forall a, In a (aleaves T) -> In a xs) -> NoDup (aleaves T) -> joins_free xs T.
+Proof.
+  intros SEP. induction T as [a|l IHl r IHr]; intros HA ND; [exact I|].
+  simpl in ND. apply nodup_app_inv in ND as [Nl [Nr DJ]].
+  split; [|split; [apply IHl|apply IHr]; auto; intros a Ha; apply HA; simpl; apply in_app_iff; auto].
+  destruct (existsb (same_id (flat (Join l r))) xs) eqn:E; [exfalso|reflexivity].
+  apply existsb_exists in E as [a [Ha Hid]].
+  destruct (aleaves_inhab l) as [a1 Ha1]. destruct (aleaves_inhab r) as [a2 Ha2].
+  destruct (bleaves_inhab a1) as [y1 Hy1]. destruct (bleaves_inhab a2) as [y2 Hy2].
+  assert (In a1 (aleaves (Join l r))) as Ha1' by (simpl; apply in_app_iff; auto).
+  assert (In a2 (aleaves (Join l r))) as Ha2' by (simpl; apply in_app_iff; auto).
+  assert (a1 = a) as E1.
+  { apply (SEP a1 a y1); [apply HA, Ha1'|exact Ha|exact Hy1|].
+    apply (same_id_leaves _ _ Hid). apply (atom_leaves_in (Join l r) a1); assumption. }
+  assert (a2 = a) as E2.
+  { apply (SEP a2 a y2); [apply HA, Ha2'|exact Ha|exact Hy2|].
+    apply (same_id_leaves _ _ Hid). apply (atom_leaves_in (Join l r) a2); assumption. }
+  subst a1 a2. apply (DJ a); assumption.
+Qed.
+
+Lemma arrange_lit_atoms xs : separated xs -> NoDup xs ->
+  arrange_lit same_id xs = map flat (arrange xs).
+Proof.
+  induction xs as [|x xs IH]; intros SEP ND; [reflexivity|].
+  destruct xs as [|y ys]; [reflexivity|].
+  rewrite arrange_cons.
+  change (arrange_lit same_id (x :: y :: ys))
+    with (flat_map (fun t => graft_lit same_id (y :: ys) t x) (arrange_lit same_id (y :: ys))).
+  inversion ND as [|? ? Nx ND']; subst.
+  assert (separated (y :: ys)) as SEP'.
+  { intros a1 a2 z H1 H2. apply SEP; right; assumption. }
+  rewrite (IH SEP' ND'). rewrite flat_map_of_map, map_of_flat_map.
+  apply flat_map_ext_in'. intros T HT.
+  pose proof (arrange_perm _ _ HT) as P.
+  apply graft_lit_atoms.
+  - intros a Ha. apply (Permutation_in _ P Ha).
+  - apply sep_joins_free; [exact SEP'| |].
+    + intros a Ha. apply (Permutation_in _ P Ha).
+    + apply (Permutation_NoDup (Permutation_sym P) ND').
+Qed.
+
+Theorem binarize_lit_eq : forall t, NoDup (rleaves t) -> arity_ok t = true ->
+  binarize_lit same_id t = binarize t.
+Proof.
+  induction t as [n|lb cs IH] using rose_ind'; intros ND AR; [reflexivity|].
+  apply arity_ok_node in AR as [AR1 AR2]. rewrite Forall_forall in IH.
+  simpl in ND.
+  assert (map (binarize_lit same_id) cs = map binarize cs) as EM.
+  { apply map_ext_in. intros c Hc. apply IH; auto. eapply nodup_flat_map_in; eauto. }
+  simpl. rewrite EM. f_equal.
+  apply flat_map_ext_in'. intros ds Hds.
+  pose proof (product_fam cs ds AR2 Hds) as F.
+  rewrite flat_map_concat_map in ND.
+  apply arrange_lit_atoms.
+  - intros a1 a2 y. apply (fam_same_elt ds _ F ND).
+  - eapply fam_nodup; eauto.
+Qed.
+
+End LiteralProofs.
+
+(** the concrete comparison "same set of leaf names" meets the two hypotheses *)
+Lemma lab_eqb_eq a b : lab_eqb a b = true <-> a = b.
+Proof.
+  destruct a as [x|], b as [y|]; simpl; split; intros H; try discriminate; try reflexivity.
+  - apply Nat.eqb_eq in H. subst. reflexivity.
+  - inversion H. apply Nat.eqb_refl.
+Qed.
+
+Lemma same_leafset_refl a : same_leafset a a = true.
+Proof.
+  unfold same_leafset.
+  assert (forallb (fun y => existsb (lab_eqb y) (bleaves a)) (bleaves a) = true) as ->; [|reflexivity].
+  apply forallb_forall. intros y Hy. apply existsb_exists. exists y. split; [exact Hy|apply lab_eqb_eq; reflexivity].
+Qed.
+
+Lemma same_leafset_leaves a b : same_leafset a b = true ->
+  forall y, In y (bleaves a) <-> In y (bleaves b).
+Proof.
+  unfold same_leafset. intros H. apply andb_true_iff in H as [H1 H2].
+  rewrite forallb_forall in H1, H2. intros y. split; intros Hy.
+  - apply H1 in Hy. apply existsb_exists in Hy as [z [Hz E]]. apply lab_eqb_eq in E. subst. exact Hz.
+  - apply H2 in Hy. apply existsb_exists in Hy as [z [Hz E]]. apply lab_eqb_eq in E. subst. exact Hz.
+Qed.
+
+(** ** completeness against the clade characterisation *)
+
+Lemma bsub_inv s lb l r : bsub s (BNode lb l r) -> s = BNode lb l r \/ bsub s l \/ bsub s r.
+Proof. intros H. inversion H; subst; auto. Qed.
+
+Lemma bsub_leaves_in s b y : bsub s b -> In y (bleaves s) -> In y (bleaves b).
+Proof. induction 1; intros Hy; simpl; auto; apply in_app_iff; auto. Qed.
+
+Lemma bsub_len s b : bsub s b -> length (bleaves s) <= length (bleaves b).
+Proof. induction 1; simpl; rewrite ?app_length; lia. Qed.
+
+Lemma bsub_len_eq s b : bsub s b -> length (bleaves s) = length (bleaves b) -> s = b.
+Proof.
+  induction 1 as [b|s lb l r H IH|s lb l r H IH]; intros E; [reflexivity| |]; exfalso;
+    simpl in E; rewrite app_length in E; pose proof (bsub_len _ _ H);
+    pose proof (bleaves_pos l); pose proof (bleaves_pos r); lia.
+Qed.
+
+Lemma bsub_nested b : NoDup (bleaves b) -> forall x y z, bsub x b -> bsub y b ->
+  In z (bleaves x) -> In z (bleaves y) -> bsub x y \/ bsub y x.
+Proof.
+  induction b as [n|lb l IHl r IHr]; intros ND x y z Hx Hy Zx Zy.
+  - inversion Hx; subst. inversion Hy; subst. left. apply bsub_refl.
+  - simpl in ND. apply nodup_app_inv in ND as [Nl [Nr DJ]].
+    apply bsub_inv in Hx as [->|[Hx|Hx]]; [right; exact Hy|..];
+      apply bsub_inv in Hy as [->|[Hy|Hy]]; try (left; first [apply bsub_l; exact Hx|apply bsub_r; exact Hx]).
+    + eapply IHl; eauto.
+    + exfalso. apply (DJ z); eapply bsub_leaves_in; eauto.
+    + exfalso. apply (DJ z); eapply bsub_leaves_in; eauto.
+    + eapply IHr; eauto.
+Qed.
+
+Lemma rsub_inv s lb cs : rsub s (RNode lb cs) -> s = RNode lb cs \/ exists c, In c cs /\ rsub s c.
+Proof. intros H. inversion H; subst; [left; reflexivity|right; eauto]. Qed.
+
+Lemma rsub_trans a b c : rsub a b -> rsub b c -> rsub a c.
+Proof. intros H1 H2. induction H2; [exact H1|eapply rsub_child; eauto]. Qed.
+
+Lemma rsub_leaves_in s t y : rsub s t -> In y (rleaves s) -> In y (rleaves t).
+Proof.
+  induction 1 as [t|s c lb cs Hc _ IH]; intros Hy; [exact Hy|].
+  simpl. apply in_flat_map. exists c. auto.
+Qed.
+
+Lemma rsub_arity s t : rsub s t -> arity_ok t = true -> arity_ok s = true.
+Proof.
+  induction 1 as [t|s c lb cs Hc _ IH]; intros AR; [exact AR|].
+  apply arity_ok_node in AR as [_ AR]. apply IH, AR, Hc.
+Qed.
+
+Lemma flat_map_length_ge {A B} (f : A -> list B) l c :
+  (forall x, In x l -> 1 <= length (f x)) -> In c l ->
+  length (f c) + (length l - 1) <= length (flat_map f l).
+Proof.
+  induction l as [|x l IH]; intros H Hc; [destruct Hc|].
+  simpl. rewrite app_length. destruct Hc as [->|Hc].
+  - assert (length l <= length (flat_map f l)).
+    { clear -H. induction l as [|y l IH]; simpl; [lia|]. rewrite app_length.
+      pose proof (H y (or_intror (or_introl eq_refl))).
+      assert (length l <= length (flat_map f l)); [|lia].
+      apply IH. intros z [->|Hz]; apply H; [left; reflexivity|right; right; exact Hz]. }
+    lia.
+  - pose proof (H x (or_introl eq_refl)).
+    assert (length (f c) + (length l - 1) <= length (flat_map f l)).
+    { apply IH; auto. intros z Hz. apply H. right; exact Hz. }
+    destruct l; [destruct Hc|simpl in *; lia].
+Qed.
+
+Lemma rleaves_pos t : arity_ok t = true -> 1 <= length (rleaves t).
+Proof.
+  induction t as [n|lb cs IH] using rose_ind'; intros AR; [simpl; lia|].
+  apply arity_ok_node in AR as [AR1 AR2]. rewrite Forall_forall in IH.
+  destruct cs as [|c cs]; [simpl in AR1; lia|].
+  pose proof (flat_map_length_ge rleaves (c :: cs) c) as H. simpl in *.
+  assert (1 <= length (rleaves c)) by (apply IH; auto).
+  rewrite app_length. lia.
+Qed.
+
+Lemma nodup_flat_map_same {A B} (f : A -> list B) l a b y :
+  NoDup (flat_map f l) -> In a l -> In b l -> In y (f a) -> In y (f b) -> a = b.
+Proof.
+  induction l as [|x l IH]; intros ND Ha Hb Ya Yb; [destruct Ha|].
+  simpl in ND. apply nodup_app_inv in ND as [_ [ND' DJ]].
+  destruct Ha as [->|Ha], Hb as [->|Hb]; auto.
+  - exfalso. apply (DJ y Ya). apply in_flat_map. eauto.
+  - exfalso. apply (DJ y Yb). apply in_flat_map. eauto.
+Qed.
+
+Lemma rsub_nested : forall t, NoDup (rleaves t) -> forall s c z, rsub s t -> rsub c t ->
+  In z (rleaves s) -> In z (rleaves c) -> rsub s c \/ rsub c s.
+Proof.
+  induction t as [n|lb cs IH] using rose_ind'; intros ND s c z Hs Hc Zs Zc.
+  - inversion Hs; subst. inversion Hc; subst. left. apply rsub_refl.
+  - rewrite Forall_forall in IH. simpl in ND.
+    apply rsub_inv in Hs as [->|[c1 [H1 Hs]]]; [right; exact Hc|].
+    apply rsub_inv in Hc as [->|[c2 [H2 Hc]]]; [left; eapply rsub_child; eauto|].
+    assert (c1 = c2) as <-.
+    { apply (nodup_flat_map_same rleaves cs c1 c2 z ND H1 H2); eapply rsub_leaves_in; eauto. }
+    apply (IH c1 H1 (nodup_flat_map_in _ _ _ ND H1) s c z); auto.
+Qed.
+
+Lemma rsub_len s t : rsub s t -> length (rleaves s) <= length (rleaves t).
+Proof.
+  induction 1 as [t|s c lb cs Hc _ IH]; [lia|]. simpl.
+  assert (length (rleaves c) <= length (flat_map rleaves cs)); [|lia].
+  clear -Hc. induction cs as [|x cs IHcs]; [destruct Hc|]. simpl. rewrite app_length.
+  destruct Hc as [->|Hc]; [lia|]. apply IHcs in Hc. lia.
+Qed.
+
+Lemma bsub_nodup x b0 : bsub x b0 -> NoDup (bleaves b0) -> NoDup (bleaves x).
+Proof.
+  induction 1 as [b0|s lb l r _ IH|s lb l r _ IH]; intros N; [exact N| |];
+    simpl in N; apply nodup_app_inv in N as [Nl [Nr _]]; auto.
+Qed.
+
+Lemma rsub_nodup s t : rsub s t -> NoDup (rleaves t) -> NoDup (rleaves s).
+Proof.
+  induction 1 as [t|s c lb cs Hc _ IH]; intros N; [exact N|].
+  apply IH. simpl in N. eapply nodup_flat_map_in; eauto.
+Qed.
+
+(** splitting a forest along the two children of a node *)
+Lemma split_forest (l r : bt) (cs1 : list rose) :
+  NoDup (bleaves l ++ bleaves r) ->
+  Permutation (bleaves l ++ bleaves r) (flat_map rleaves cs1) ->
+  (forall c, In c cs1 -> incl (rleaves c) (bleaves l) \/ incl (rleaves c) (bleaves r)) ->
+  exists csl csr, Permutation cs1 (csl ++ csr) /\
+    Permutation (bleaves l) (flat_map rleaves csl) /\ Permutation (bleaves r) (flat_map rleaves csr).
+Proof.
+  intros ND P SIDE.
+  assert (exists csl csr, Permutation cs1 (csl ++ csr) /\
+            (forall c, In c csl -> incl (rleaves c) (bleaves l)) /\
+            (forall c, In c csr -> incl (rleaves c) (bleaves r))) as [csl [csr [PC [IL IR]]]].
+  { clear P. induction cs1 as [|c cs1 IH].
+    - exists [], []. split; [constructor|split; intros ? []].
+    - destruct IH as [csl [csr [PC [IL IR]]]]; [intros x Hx; apply SIDE; right; exact Hx|].
+      destruct (SIDE c (or_introl eq_refl)) as [S|S].
+      + exists (c :: csl), csr. split; [simpl; constructor; exact PC|].
+        split; [intros x [<-|Hx]; auto|exact IR].
+      + exists csl, (c :: csr). split; [rewrite <- Permutation_middle; constructor; exact PC|].
+        split; [exact IL|intros x [<-|Hx]; auto]. }
+  exists csl, csr. split; [exact PC|].
+  pose proof (nodup_app_inv _ _ ND) as [Nl [Nr DJ]].
+  assert (Permutation (bleaves l ++ bleaves r) (flat_map rleaves csl ++ flat_map rleaves csr)) as P'.
+  { rewrite P. rewrite <- flat_map_app. apply Permutation_flat_map, PC. }
+  assert (NoDup (flat_map rleaves csl ++ flat_map rleaves csr)) as ND' by (apply (Permutation_NoDup P' ND)).
+  pose proof (nodup_app_inv _ _ ND') as [Ncl [Ncr _]].
+  assert (forall y, In y (flat_map rleaves csl) -> In y (bleaves l)) as I1.
+  { intros y Hy. apply in_flat_map in Hy as [c [Hc Hy]]. apply (IL c Hc y Hy). }
+  assert (forall y, In y (flat_map rleaves csr) -> In y (bleaves r)) as I2.
+  { intros y Hy. apply in_flat_map in Hy as [c [Hc Hy]]. apply (IR c Hc y Hy). }
+  split; apply NoDup_Permutation; auto; intros y; split; auto; intros Hy.
+  - assert (In y (flat_map rleaves csl ++ flat_map rleaves csr)) as H
+      by (apply (Permutation_in _ P'); apply in_app_iff; auto).
+    apply in_app_iff in H as [H|H]; [exact H|]. exfalso. apply (DJ y Hy). apply I2, H.
+  - assert (In y (flat_map rleaves csl ++ flat_map rleaves csr)) as H
+      by (apply (Permutation_in _ P'); apply in_app_iff; auto).
+    apply in_app_iff in H as [H|H]; [|exact H]. exfalso. apply (DJ y); [apply I1, H|exact Hy].
+Qed.
+
+Lemma join_parts cs1 csl csr dsl dsr (Tl Tr : atree bt) :
+  Permutation cs1 (csl ++ csr) ->
+  Forall2 refines csl dsl -> Forall2 refines csr dsr ->
+  Permutation (aleaves Tl) dsl -> Permutation (aleaves Tr) dsr ->
+  exists ds, Forall2 refines cs1 ds /\ Permutation (aleaves (Join Tl Tr)) ds.
+Proof.
+  intros PC Fl Fr Pl Pr.
+  assert (Forall2 refines (csl ++ csr) (dsl ++ dsr)) as F by (apply Forall2_app; assumption).
+  destruct (perm_forall2 refines _ _ PC _ F) as [ds [Pd Fd]].
+  exists ds. split; [exact Fd|]. simpl. rewrite Pd. apply Permutation_app; assumption.
+Qed.
+
+Section CladeComplete.
+Variables (t : rose) (b : bt).
+Hypothesis ND : NoDup (rleaves t).
+Hypothesis AR : arity_ok t = true.
+Hypothesis PL : Permutation (bleaves b) (rleaves t).
+Hypothesis KC : forall s, rsub s t ->
+  exists b', bsub b' b /\ Permutation (bleaves b') (rleaves s) /\ blabel b' = rlabel s.
+Hypothesis FR : forall b', bsub b' b ->
+  (exists s, rsub s t /\ Permutation (bleaves b') (rleaves s)) \/ (exists l r, b' = BNode None l r).
+
+Lemma NDb : NoDup (bleaves b).
+Proof. apply (Permutation_NoDup (Permutation_sym PL) ND). Qed.
+
+Lemma NDsub x : bsub x b -> NoDup (bleaves x).
+Proof. intros H. apply (bsub_nodup _ _ H NDb). Qed.
+
+Lemma image_unique x y : bsub x b -> bsub y b -> Permutation (bleaves x) (bleaves y) -> x = y.
+Proof.
+  intros Hx Hy P. destruct (bleaves_inhab x) as [z Hz].
+  destruct (bsub_nested b NDb x y z Hx Hy Hz (Permutation_in _ P Hz)) as [H|H].
+  - apply bsub_len_eq; [exact H|apply Permutation_length, P].
+  - symmetry. apply bsub_len_eq; [exact H|symmetry; apply Permutation_length, P].
+Qed.
+
+(** where the clade of a child tree sits below a node that is bigger than it *)
+Lemma side_of c' x lbx l r : rsub c' t -> bsub x b -> x = BNode lbx l r ->
+  incl (rleaves c') (bleaves x) -> length (rleaves c') < length (bleaves x) ->
+  incl (rleaves c') (bleaves l) \/ incl (rleaves c') (bleaves r).
+Proof.
+  intros Hc Hx -> INC LT.
+  destruct (KC c' Hc) as [b' [Hb' [Pb' _]]].
+  destruct (bleaves_inhab b') as [z Hz].
+  assert (In z (bleaves (BNode lbx l r))) as Hz' by (apply INC; apply (Permutation_in _ Pb' Hz)).
+  pose proof (Permutation_length Pb') as LB.
+  destruct (bsub_nested b NDb b' _ z Hb' Hx Hz Hz') as [H|H].
+  - apply bsub_inv in H as [->|[H|H]]; [lia| |].
+    + left. intros y Hy. apply (bsub_leaves_in _ _ _ H). apply (Permutation_in _ (Permutation_sym Pb') Hy).
+    + right. intros y Hy. apply (bsub_leaves_in _ _ _ H). apply (Permutation_in _ (Permutation_sym Pb') Hy).
+  - apply bsub_len in H. lia.
+Qed.
+
+Section Node.
+Variables (lbc : lab) (cs : list rose).
+Hypothesis Hc : rsub (RNode lbc cs) t.
+Hypothesis IHc : forall c1, In c1 cs -> forall x1, bsub x1 b ->
+  Permutation (bleaves x1) (rleaves c1) -> refines c1 x1.
+
+Lemma child_sub c1 : In c1 cs -> rsub c1 t.
+Proof. intros H. eapply rsub_trans; [|exact Hc]. eapply rsub_child; [exact H|apply rsub_refl]. Qed.
+
+Lemma child_pos c1 : In c1 cs -> 1 <= length (rleaves c1).
+Proof. intros H. apply rleaves_pos. eapply rsub_arity; [apply child_sub, H|exact AR]. Qed.
+
+Lemma NDcs : NoDup (flat_map rleaves cs).
+Proof. apply (rsub_nodup _ _ Hc ND). Qed.
+
+Lemma forest_step : forall x, bsub x b -> forall cs1,
+  (forall c1, In c1 cs1 -> In c1 cs) ->
+  Permutation (bleaves x) (flat_map rleaves cs1) ->
+  length (bleaves x) < length (flat_map rleaves cs) ->
+  exists ds T, Forall2 refines cs1 ds /\ Permutation (aleaves T) ds /\ x = flat T.
+Proof.
+  assert (forall x c1, bsub x b -> In c1 cs -> Permutation (bleaves x) (flat_map rleaves [c1]) ->
+            exists ds T, Forall2 refines [c1] ds /\ Permutation (aleaves T) ds /\ x = flat T) as SINGLE.
+  { intros x c1 Hx H1 P. simpl in P. rewrite app_nil_r in P.
+    exists [x], (Atom x). split; [repeat constructor; apply IHc; auto|split; [apply Permutation_refl|reflexivity]]. }
+  assert (forall x c1 c2 rest, (forall c, In c (c1 :: c2 :: rest) -> In c cs) ->
+            Permutation (bleaves x) (flat_map rleaves (c1 :: c2 :: rest)) ->
+            forall c, In c (c1 :: c2 :: rest) ->
+            incl (rleaves c) (bleaves x) /\ length (rleaves c) < length (bleaves x)) as SMALL.
+  { intros x c1 c2 rest INC P c Hcin. split.
+    - intros y Hy. apply (Permutation_in _ (Permutation_sym P)). apply in_flat_map. eauto.
+    - rewrite (Permutation_length P).
+      pose proof (flat_map_length_ge rleaves (c1 :: c2 :: rest) c
+                    (fun z Hz => child_pos z (INC z Hz)) Hcin) as H.
+      remember (c1 :: c2 :: rest) as L eqn:EL.
+      assert (2 <= length L) by (subst L; simpl; lia). lia. }
+  induction x as [n|lbx l IHl r IHr]; intros Hx cs1 INC P LT.
+  - destruct cs1 as [|c1 [|c2 rest]].
+    + simpl in P. apply Permutation_sym, Permutation_nil in P. discriminate.
+    + apply SINGLE; auto. apply INC. left; reflexivity.
+    + exfalso. destruct (SMALL _ _ _ _ INC P c1 (or_introl eq_refl)) as [_ H].
+      pose proof (child_pos c1 (INC c1 (or_introl eq_refl))). simpl in H. lia.
+  - destruct cs1 as [|c1 [|c2 rest]].
+    + apply Permutation_sym, Permutation_nil in P. destruct (bleaves_nonempty _ P).
+    + apply SINGLE; auto. apply INC. left; reflexivity.
+    + remember (c1 :: c2 :: rest) as cs1 eqn:Ecs1.
+      assert (forall c, In c cs1 ->
+                incl (rleaves c) (bleaves (BNode lbx l r)) /\ length (rleaves c) < length (bleaves (BNode lbx l r))) as SM.
+      { subst cs1. apply SMALL; auto. }
+      (* the node is a new one: unlabelled *)
+      assert (lbx = None) as ->.
+      { destruct (FR _ Hx) as [[s [Hs Ps]]|[l' [r' E]]]; [exfalso|inversion E; reflexivity].
+        assert (In c1 cs1) as I1 by (subst cs1; left; reflexivity).
+        assert (In c2 cs1) as I2 by (subst cs1; right; left; reflexivity).
+        assert (forall c, In c cs1 -> exists z, In z (rleaves c) /\ In z (rleaves s)) as SH.
+        { intros c Hcin. pose proof (child_pos c (INC c Hcin)) as HP.
+          destruct (rleaves c) as [|z zs] eqn:E; [simpl in HP; lia|]. exists z. split; [left; reflexivity|].
+          apply (Permutation_in _ Ps). apply (proj1 (SM c Hcin)). rewrite E. left; reflexivity. }
+        destruct (SH c1 I1) as [z1 [Z1 Z1s]].
+        assert (In z1 (rleaves (RNode lbc cs))) as Z1c.
+        { simpl. apply in_flat_map. exists c1. split; [apply INC, I1|exact Z1]. }
+        pose proof (Permutation_length Ps) as LS.
+        destruct (rsub_nested t ND s (RNode lbc cs) z1 Hs Hc Z1s Z1c) as [H|H].
+        - apply rsub_inv in H as [->|[c' [Hc' H]]].
+          + simpl in LS, LT. lia.
+          + destruct (SH c2 I2) as [z2 [Z2 Z2s]].
+            assert (c1 = c') as E1.
+            { apply (nodup_flat_map_same rleaves cs c1 c' z1 NDcs); auto. eapply rsub_leaves_in; eauto. }
+            assert (c2 = c') as E2.
+            { apply (nodup_flat_map_same rleaves cs c2 c' z2 NDcs); auto. eapply rsub_leaves_in; eauto. }
+            subst c'. subst c2.
+            assert (NoDup (flat_map rleaves cs1)) as N1 by (apply (Permutation_NoDup P), NDsub, Hx).
+            subst cs1. simpl in N1. apply nodup_app_inv in N1 as [_ [_ DJ]].
+            apply (DJ z1 Z1). apply in_app_iff. left; exact Z1.
+        - apply rsub_len in H. simpl in H, LS, LT. lia. }
+      assert (forall c, In c cs1 -> incl (rleaves c) (bleaves l) \/ incl (rleaves c) (bleaves r)) as SIDE.
+      { intros c Hcin. destruct (SM c Hcin) as [I L].
+        apply (side_of c (BNode None l r) None l r); auto. apply child_sub, INC, Hcin. }
+      pose proof (NDsub _ Hx) as Nx. simpl in Nx, P.
+      destruct (split_forest l r cs1 Nx P SIDE) as [csl [csr [PC [Pl Pr]]]].
+      assert (bsub l b) as Hl by (eapply bsub_trans; [apply bsub_l, bsub_refl|exact Hx]).
+      assert (bsub r b) as Hr by (eapply bsub_trans; [apply bsub_r, bsub_refl|exact Hx]).
+      simpl in LT. rewrite app_length in LT.
+      pose proof (bleaves_pos l). pose proof (bleaves_pos r).
+      destruct (IHl Hl csl) as [dsl [Tl [Fl [PTl El]]]]; auto; [|lia|].
+      { intros c Hcin. apply INC. apply (Permutation_in _ (Permutation_sym PC)). apply in_app_iff; auto. }
+      destruct (IHr Hr csr) as [dsr [Tr [Fr [PTr Er]]]]; auto; [|lia|].
+      { intros c Hcin. apply INC. apply (Permutation_in _ (Permutation_sym PC)). apply in_app_iff; auto. }
+      destruct (join_parts cs1 csl csr dsl dsr Tl Tr PC Fl Fr PTl PTr) as [ds [Fd Pd]].
+      exists ds, (Join Tl Tr). split; [exact Fd|split; [exact Pd|]].
+      simpl. rewrite <- El, <- Er. reflexivity.
+Qed.
+
+End Node.
+
+Lemma clade_refines_all : forall c, rsub c t -> forall x, bsub x b ->
+  Permutation (bleaves x) (rleaves c) -> refines c x.
+Proof.
+  induction c as [n|lbc cs IH] using rose_ind'; intros Hc x Hx P.
+  - simpl in P. simpl. apply single_leaf_clade, P.
+  - rewrite Forall_forall in IH.
+    assert (forall c1, In c1 cs -> forall x1, bsub x1 b ->
+              Permutation (bleaves x1) (rleaves c1) -> refines c1 x1) as IHc.
+    { intros c1 H1. apply IH; auto. eapply child_sub; eauto. }
+    pose proof (rsub_arity _ _ Hc AR) as A. apply arity_ok_node in A as [A1 A2].
+    (* x is the image of the node: it bears its label *)
+    destruct (KC _ Hc) as [b' [Hb' [Pb' Lb']]]. simpl in Lb'.
+    assert (b' = x) as -> by (apply image_unique; auto; rewrite Pb', P; apply Permutation_refl).
+    assert (forall c, In c cs ->
+              incl (rleaves c) (bleaves x) /\ length (rleaves c) < length (bleaves x)) as SM.
+    { intros c Hcin. split.
+      - intros y Hy. apply (Permutation_in _ (Permutation_sym P)). simpl. apply in_flat_map. eauto.
+      - rewrite (Permutation_length P). simpl.
+        pose proof (flat_map_length_ge rleaves cs c (fun z Hz => child_pos lbc cs Hc z Hz) Hcin). lia. }
+    destruct x as [n|lbx l r].
+    { exfalso. destruct cs as [|c0 cs']; [simpl in A1; lia|].
+      destruct (SM c0 (or_introl eq_refl)) as [_ H].
+      pose proof (child_pos lbc _ Hc c0 (or_introl eq_refl)). simpl in H. lia. }
+    simpl in Lb'. subst lbx.
+    assert (forall c, In c cs -> incl (rleaves c) (bleaves l) \/ incl (rleaves c) (bleaves r)) as SIDE.
+    { intros c Hcin. destruct (SM c Hcin) as [I L].
+      apply (side_of c (BNode lbc l r) lbc l r); auto. eapply child_sub; eauto. }
+    pose proof (NDsub _ Hx) as Nx. simpl in Nx, P.
+    destruct (split_forest l r cs Nx P SIDE) as [csl [csr [PC [Pl Pr]]]].
+    assert (bsub l b) as Hl by (eapply bsub_trans; [apply bsub_l, bsub_refl|exact Hx]).
+    assert (bsub r b) as Hr by (eapply bsub_trans; [apply bsub_r, bsub_refl|exact Hx]).
+    pose proof (bleaves_pos l). pose proof (bleaves_pos r).
+    pose proof (Permutation_length P) as LP. rewrite app_length in LP.
+    destruct (forest_step lbc cs Hc IHc l Hl csl) as [dsl [Tl [Fl [PTl El]]]]; auto; [|lia|].
+    { intros c Hcin. apply (Permutation_in _ (Permutation_sym PC)). apply in_app_iff; auto. }
+    destruct (forest_step lbc cs Hc IHc r Hr csr) as [dsr [Tr [Fr [PTr Er]]]]; auto; [|lia|].
+    { intros c Hcin. apply (Permutation_in _ (Permutation_sym PC)). apply in_app_iff; auto. }
+    destruct (join_parts cs csl csr dsl dsr Tl Tr PC Fl Fr PTl PTr) as [ds [Fd Pd]].
+    apply refines_node. exists ds, (Join Tl Tr). split; [exact Fd|split; [exact Pd|]].
+    simpl. rewrite <- El, <- Er. reflexivity.
+Qed.
+
+End CladeComplete.
+
+Theorem clade_refinement_is_refines : forall t b,
+  NoDup (rleaves t) -> arity_ok t = true ->
+  Permutation (bleaves b) (rleaves t) ->
+  (forall s, rsub s t ->
+     exists b', bsub b' b /\ Permutation (bleaves b') (rleaves s) /\ blabel b' = rlabel s) ->
+  (forall b', bsub b' b ->
+     (exists s, rsub s t /\ Permutation (bleaves b') (rleaves s)) \/ (exists l r, b' = BNode None l r)) ->
+  refines t b.
+Proof.
+  intros t b ND AR PL KC FR.
+  apply (clade_refines_all t b ND AR PL KC FR t (rsub_refl t) b (bsub_refl b) PL).
+Qed.
+
+(** every binary tree meeting the clade characterisation is produced, up to child order *)
+Theorem clade_refinement_produced : forall t b,
+  NoDup (rleaves t) -> arity_ok t = true ->
+  Permutation (bleaves b) (rleaves t) ->
+  (forall s, rsub s t ->
+     exists b', bsub b' b /\ Permutation (bleaves b') (rleaves s) /\ blabel b' = rlabel s) ->
+  (forall b', bsub b' b ->
+     (exists s, rsub s t /\ Permutation (bleaves b') (rleaves s)) \/ (exists l r, b' = BNode None l r)) ->
+  exists b0, In b0 (binarize t) /\ beqv b b0.
+Proof.
+  intros t b ND AR PL KC FR. apply refines_complete.
+  apply clade_refinement_is_refines; assumption.
+Qed.
